@@ -1,6 +1,7 @@
 (* C02 for descriptor transactions (kind 6): descriptor versions, state <-> descriptor consistency, deletion /
    re-creation bookkeeping, and the lift to histories of transactions of all kinds.
-   The model (Mdib/Model.v) is untouched; everything here is stated about [transaction 6 None acts m]. *)
+   Everything is stated about [transaction 6 None acts m] for EVERY list of descriptor calls: a transaction that creates or
+   updates something inside a subtree it removes is refused ([subtree_conflict], code 3), all others are covered. *)
 From Coq Require Import List ZArith Bool Lia.
 From SDC Require Import Mdib.Model Mdib.Proofs Mdib.Proofs_Ctx.
 Import ListNotations.
@@ -728,6 +729,78 @@ Proof.
   unfold alist_has. destruct (alist_get (t_c t1) k); [reflexivity|contradiction].
 Qed.
 
+(* ---------------------------------------------------------------- the fuel of [reaches] suffices *)
+(* a chain of parent links from x to r; every listed node has a descriptor *)
+Inductive walk (m : mdib) : H -> list H -> H -> Prop :=
+| walk_nil x : walk m x [] x
+| walk_cons x d p l r : descrs m x = Some d -> d_parent d = Some p -> walk m p l r -> walk m x (x :: l) r.
+
+Lemma below_walk m x r : below m x r -> exists l, walk m x l r.
+Proof.
+  induction 1 as [x|x d p r E P B [l IH]]; [exists []; constructor|]. exists (x :: l). econstructor; eassumption.
+Qed.
+Lemma walk_reaches m x l r : walk m x l r -> reaches m (length l) x r = true.
+Proof.
+  induction 1 as [x|x d p l r E P W IH]; cbn [length reaches]; [now rewrite Z.eqb_refl|].
+  destruct (Z.eqb x r); [reflexivity|]. now rewrite E, P.
+Qed.
+Lemma walk_nodes m x l r : walk m x l r -> forall y, In y l -> descrs m y <> None.
+Proof.
+  induction 1 as [x|x d p l r E P W IH]; intros y; [intros []|]. intros [<-|Hy]; [congruence|now apply IH].
+Qed.
+Lemma walk_from_member m p l r : walk m p l r -> forall x, In x l -> exists pre l', l = pre ++ l' /\ walk m x l' r.
+Proof.
+  induction 1 as [y|y d q l r E P W IH]; intros x; [intros []|]. intros [<-|Hx].
+  - exists [], (y :: l). split; [reflexivity|]. econstructor; eassumption.
+  - destruct (IH x Hx) as (pre & l' & -> & W'). exists (y :: pre), l'. now split.
+Qed.
+Lemma nodup_app_r {A} (l1 l2 : list A) : NoDup (l1 ++ l2) -> NoDup l2.
+Proof. induction l1 as [|a r IH]; cbn; [tauto|]. intros Hn. inversion Hn; subst. now apply IH. Qed.
+
+Lemma walk_shorten m x l r : walk m x l r -> exists l', walk m x l' r /\ NoDup l' /\ incl l' l.
+Proof.
+  induction 1 as [x|x d p l r E P W (l' & W' & N' & I')].
+  - exists []. split; [constructor|]. split; [constructor|apply incl_refl].
+  - destruct (in_dec Z.eq_dec x l') as [Hin|Hnin].
+    + destruct (walk_from_member m p l' r W' x Hin) as (pre & l'' & -> & W'').
+      exists l''. split; [exact W''|]. split; [now apply nodup_app_r in N'|].
+      intros y Hy. right. apply I'. apply in_or_app. now right.
+    + exists (x :: l'). split; [econstructor; eassumption|]. split; [now constructor|].
+      intros y [<-|Hy]; [now left|right; now apply I'].
+Qed.
+
+Lemma fuel_ok m : (forall h, descrs m h <> None -> In h (ddom m)) ->
+  forall x r, below m x r -> reaches m (length (ddom m)) x r = true.
+Proof.
+  intros Hdom x r B. destruct (below_walk m x r B) as [l W].
+  destruct (walk_shorten m x l r W) as (l' & W' & N' & _).
+  apply (reaches_mono m (length l')); [|now apply walk_reaches].
+  apply NoDup_incl_length; [exact N'|]. intros y Hy. apply Hdom. eapply walk_nodes; eassumption.
+Qed.
+
+Lemma below_reaches m : (forall h, descrs m h <> None -> In h (ddom m)) ->
+  forall x r, below m x r <-> reaches m (length (ddom m)) x r = true.
+Proof. intros Hdom x r. split; [now apply fuel_ok|apply reaches_below]. Qed.
+
+Lemma below_trans m x y r : below m x y -> below m y r -> below m x r.
+Proof. induction 1 as [x|x d p y E P B IH]; intros B2; [exact B2|]. eapply below_step; eauto. Qed.
+
+(* a chain that is intact (same parent links) in mc is followed by mc as well *)
+Lemma reaches_transfer2 m mc r : forall f x,
+  (forall y, below m x y -> below m y r -> y <> r ->
+     exists d d', descrs m y = Some d /\ descrs mc y = Some d' /\ d_parent d' = d_parent d) ->
+  reaches m f x r = true -> reaches mc f x r = true.
+Proof.
+  induction f as [|f IH]; intros x Hagree; cbn [reaches]; [tauto|].
+  destruct (Z.eqb_spec x r) as [->|Hne]; [reflexivity|].
+  destruct (descrs m x) as [d|] eqn:E; [|discriminate].
+  destruct (d_parent d) as [p|] eqn:P; [|discriminate]. intros R.
+  assert (B : below m x r) by (eapply below_step; eauto using reaches_below).
+  destruct (Hagree x (below_refl _ _) B Hne) as (d1 & d' & E1 & E' & P').
+  rewrite E in E1. injection E1 as <-. rewrite E', P', P. apply IH; [|exact R].
+  intros y By Byr Hy. apply Hagree; [eapply below_step; eassumption|exact Byr|exact Hy].
+Qed.
+
 Section DescrFold.
   Variable good : H -> Prop.
   Variable m : mdib.
@@ -735,20 +808,20 @@ Section DescrFold.
   Variables cr up de : list H.
   Hypothesis HLn : NoDup (map fst L).
   Hypothesis HLi : forall h x, In (h, x) L -> ditem_ok m h x.
-  Hypothesis Hcr : forall p, memz p cr = true <-> exists d, In (p, Some d) L /\ descrs m p = None.
-  Hypothesis Hup : forall p, memz p up = true <-> exists d, In (p, Some d) L /\ descrs m p <> None.
-  Hypothesis Hde : forall p, memz p de = true <-> In (p, None) L /\ descrs m p <> None.
   Hypothesis Hdom : forall h, descrs m h <> None -> In h (ddom m).
   Hypothesis Hsd : forall h, states m h <> None -> descrs m h <> None.
-  (* separation of the deleted subtrees from everything else the transaction touches *)
-  Hypothesis Sup : forall D h d, In (D, None) L -> In (h, Some d) L -> descrs m h <> None -> ~ below m h D.
-  Hypothesis Sadd : forall D h d p, In (D, None) L -> In (h, Some d) L -> descrs m h = None -> d_parent d = Some p -> ~ below m p D.
-  Hypothesis Sdel : forall D x, In (D, None) L -> In (x, None) L -> x <> D -> ~ below m x D.
-  Hypothesis Spar : forall D dD p, In (D, None) L -> descrs m D = Some dD -> d_parent dD = Some p ->
-                                   descrs m p <> None /\ ~ below m p D.
+
+  (* the handles this transaction removes: the subtrees (before the commit) of the removed descriptors *)
+  Definition Rm (h : H) : Prop := exists D, In (D, None) L /\ In h (subtree m D).
+
+  Hypothesis Hcr : forall p, memz p cr = true <-> exists d, In (p, Some d) L /\ descrs m p = None.
+  Hypothesis Hup : forall p, memz p up = true <-> exists d, In (p, Some d) L /\ descrs m p <> None.
+  Hypothesis Hde : forall p, memz p de = true <-> Rm p.
+  (* no conflict: nothing is created or updated inside a removed subtree *)
+  Hypothesis Hnc_h : forall h d, In (h, Some d) L -> ~ Rm h.
+  Hypothesis Hnc_p : forall h d p, In (h, Some d) L -> d_parent d = Some p -> ~ Rm p.
 
   Definition pd (done : list (H * option descr)) (h : H) : bool := memz h (map fst done).
-  Definition rem_sub (done : list (H * option descr)) (h : H) : Prop := exists D, In (D, None) done /\ In h (subtree m D).
   Definition rem_below (done : list (H * option descr)) (h : H) : Prop := exists D, In (D, None) done /\ below m h D.
   (* an item that adds / removes a child of h *)
   Definition trig_item (e : H * option descr) (h : H) : Prop :=
@@ -757,51 +830,88 @@ Section DescrFold.
     | None => exists dc, descrs m (fst e) = Some dc /\ d_parent dc = Some h
     end.
   Definition trig (done : list (H * option descr)) (h : H) : Prop := exists e, In e done /\ trig_item e h.
-
-  Definition dspec (done : list (H * option descr)) (mc : mdib) (b : list H) (h : H) : Prop :=
-    match alist_get L h with
-    | Some (Some d) => descrs mc h = if pd done h then Some d else descrs m h
-    | Some None => descrs mc h = if pd done h then None else descrs m h
-    | None => match descrs m h with
-              | None => descrs mc h = None
-              | Some d0 => (descrs mc h = None \/ descrs mc h = Some (if memz h b then bumpd d0 else d0)) /\
-                           (~ rem_below done h -> descrs mc h <> None)
-              end
-    end.
-
-  Record Inv1 (done : list (H * option descr)) (mc : mdib) (b : list H) : Prop := {
-    i_d : forall h, dspec done mc b h;
-    i_rem : forall D h, In (D, None) done -> In h (subtree m D) -> descrs mc h = None;
-    i_b1 : forall h, memz h b = true ->
-             (exists d, In (h, Some d) done /\ descrs m h <> None) \/ (alist_get L h = None /\ trig done h);
-    i_dom : forall h, descrs mc h <> None -> In h (ddom mc);
-    i_dom2 : incl (ddom m) (ddom mc) /\ (length (ddom m) <= length (ddom mc))%nat;
-    i_svd1 : forall D h d0, In (D, None) done -> In h (subtree m D) -> descrs m h = Some d0 -> sv_d mc h = Some (d_ver d0);
-    i_svd2 : forall h, ~ rem_below done h -> sv_d mc h = sv_d m h;
-    i_st1 : forall h, states mc h = None \/ states mc h = states m h;
-    i_st2 : forall D h, In (D, None) done -> In h (subtree m D) -> states mc h = None;
-    i_st3 : forall h, ~ rem_below done h -> states mc h = states m h;
-    i_st4 : forall h, states mc h <> None -> descrs mc h <> None;
-    i_svs1 : forall D h s, In (D, None) done -> In h (subtree m D) -> states m h = Some s -> sv_s mc h = Some (s_ver s);
-    i_svs2 : forall h, ~ rem_below done h -> sv_s mc h = sv_s m h;
-    i_svd3 : forall h d0, descrs m h = Some d0 -> descrs mc h = None -> sv_d mc h = Some (d_ver d0)
-  }.
+  (* a removed descriptor whose parent is h *)
+  Definition trigd (done : list (H * option descr)) (h : H) : Prop :=
+    exists c dc, In (c, None) done /\ descrs m c = Some dc /\ d_parent dc = Some h.
+  (* why h was bumped: some child item; for a handle created by this transaction: a removed (orphan) child *)
+  Definition trig2 (done : list (H * option descr)) (h : H) : Prop :=
+    trig done h /\ (descrs m h = None -> trigd done h).
 
   Lemma L_get h x : In (h, x) L -> alist_get L h = Some x.
   Proof. apply alist_get_in. exact HLn. Qed.
   Lemma L_in h x : alist_get L h = Some x -> In (h, x) L.
   Proof. apply alist_get_some_in. Qed.
 
+  Lemma del_exists D : In (D, None) L -> descrs m D <> None.
+  Proof. intros HD. pose proof (HLi _ _ HD) as Ok. unfold ditem_ok in Ok. destruct (descrs m D); [discriminate|contradiction]. Qed.
+
+  Lemma below_Rm D x : In (D, None) L -> below m x D -> Rm x.
+  Proof.
+    intros HD B. exists D. split; [exact HD|]. apply subtree_In.
+    assert (Ex : descrs m x <> None).
+    { destruct (descrs m x) eqn:E; [discriminate|]. apply (below_absent _ _ _ E) in B. subst x. now apply del_exists in HD. }
+    split; [now apply Hdom|]. split; [exact Ex|]. now apply fuel_ok.
+  Qed.
+  Lemma Rm_below x : Rm x -> descrs m x <> None /\ exists D, In (D, None) L /\ below m x D.
+  Proof.
+    intros (D & HD & Hx). apply subtree_In in Hx. destruct Hx as (_ & Ex & R). split; [exact Ex|].
+    exists D. split; [exact HD|]. eapply reaches_below; exact R.
+  Qed.
+  Lemma rem_below_Rm done x : (forall e, In e done -> In e L) -> rem_below done x -> Rm x.
+  Proof. intros Hd (D & Hi & B). eapply below_Rm; [apply Hd; exact Hi|exact B]. Qed.
+
+  Lemma below_dec x r : below m x r \/ ~ below m x r.
+  Proof.
+    destruct (reaches m (length (ddom m)) x r) eqn:R; [left; eapply reaches_below; exact R|].
+    right. intros B. rewrite (fuel_ok m Hdom x r B) in R. discriminate.
+  Qed.
+  Lemma rem_below_dec done x : rem_below done x \/ ~ rem_below done x.
+  Proof.
+    induction done as [|[k [d|]] r IH].
+    - right. intros (D & [] & _).
+    - destruct IH as [(D & Hi & B)|N]; [left; exists D; split; [now right|exact B]|].
+      right. intros (D & [[=]|Hi] & B). apply N. now exists D.
+    - destruct (below_dec x k) as [B|NB]; [left; exists k; split; [now left|exact B]|].
+      destruct IH as [(D & Hi & B)|N]; [left; exists D; split; [now right|exact B]|].
+      right. intros (D & [[= ->]|Hi] & B); [contradiction|]. apply N. now exists D.
+  Qed.
+
+  Definition dspec (done : list (H * option descr)) (mc : mdib) (b : list H) (h : H) : Prop :=
+    match alist_get L h, descrs m h with
+    | Some (Some d), Some _ => descrs mc h = if pd done h then Some d else descrs m h
+    | Some (Some d), None => descrs mc h = if pd done h then Some (if memz h b then bumpd d else d) else None
+    | _, None => descrs mc h = None
+    | _, Some d0 => (rem_below done h -> descrs mc h = None) /\
+                    (~ rem_below done h -> descrs mc h = Some (if memz h b then bumpd d0 else d0))
+    end.
+
+  Definition no_upd (h : H) : Prop := forall d, In (h, Some d) L -> descrs m h = None.
+
+  Record Inv1 (done : list (H * option descr)) (mc : mdib) (b : list H) : Prop := {
+    i_d : forall h, dspec done mc b h;
+    i_b1 : forall h, memz h b = true ->
+             ~ Rm h /\ ((exists d, In (h, Some d) done /\ descrs m h <> None) \/ (no_upd h /\ trig2 done h));
+    i_bex : forall h, memz h b = true -> descrs mc h <> None;
+    i_dom : forall h, descrs mc h <> None -> In h (ddom mc);
+    i_dom2 : incl (ddom m) (ddom mc) /\ (length (ddom m) <= length (ddom mc))%nat;
+    i_svd2 : forall h, ~ rem_below done h -> sv_d mc h = sv_d m h;
+    i_svd3 : forall h d0, descrs m h = Some d0 -> descrs mc h = None -> sv_d mc h = Some (d_ver d0);
+    i_st1 : forall h, states mc h = None \/ states mc h = states m h;
+    i_stR : forall h, rem_below done h -> states mc h = None;
+    i_st3 : forall h, ~ rem_below done h -> states mc h = states m h;
+    i_st4 : forall h, states mc h <> None -> descrs mc h <> None;
+    i_svsR : forall h s, rem_below done h -> states m h = Some s -> sv_s mc h = Some (s_ver s);
+    i_svs2 : forall h, ~ rem_below done h -> sv_s mc h = sv_s m h
+  }.
+
   Lemma pd_app done e h : pd (done ++ [e]) h = pd done h || Z.eqb h (fst e).
   Proof. unfold pd. rewrite map_app, memz_app. cbn [map]. rewrite memz_cons. cbn [memz existsb]. now rewrite orb_false_r. Qed.
-
   Lemma pd_in done h x : In (h, x) done -> pd done h = true.
   Proof. intros Hi. apply memz_In. now apply (in_map fst) in Hi. Qed.
 
   Section Split.
     Variables (done rest : list (H * option descr)) (e : H * option descr).
     Hypothesis HL : L = done ++ e :: rest.
-
     Lemma done_in x : In x done -> In x L.
     Proof. intros Hi. rewrite HL. apply in_or_app. now left. Qed.
     Lemma e_in : In e L.
@@ -811,107 +921,133 @@ Section DescrFold.
       apply memz_false. intros Hi. rewrite HL, map_app in HLn. cbn [map] in HLn.
       apply NoDup_remove_2 in HLn. apply HLn. apply in_or_app. now left.
     Qed.
-    Lemma done_ne h x : In (h, x) done -> h <> fst e.
-    Proof. intros Hi ->. pose proof e_not_done as E. rewrite (pd_in _ _ _ Hi) in E. discriminate. Qed.
+    Lemma done'_in x : In x (done ++ [e]) -> In x L.
+    Proof. rewrite in_app_iff. intros [Hi|[<-|[]]]; [now apply done_in|exact e_in]. Qed.
   End Split.
 
   Lemma in_app_single {A} (l : list A) (e x : A) : In x (l ++ [e]) <-> In x l \/ x = e.
   Proof. rewrite in_app_iff. cbn. intuition. Qed.
-
   Lemma rem_below_mono done e h : rem_below done h -> rem_below (done ++ [e]) h.
   Proof. intros (D & Hi & B). exists D. split; [apply in_or_app; now left|exact B]. Qed.
-  Lemma rem_below_some done k d h : rem_below (done ++ [(k, Some d)]) h -> rem_below done h.
-  Proof. intros (D & Hi & B). apply in_app_single in Hi. destruct Hi as [Hi|[=]]. now exists D. Qed.
+  Lemma rem_below_some done k d h : rem_below (done ++ [(k, Some d)]) h <-> rem_below done h.
+  Proof.
+    split; [|apply rem_below_mono]. intros (D & Hi & B). apply in_app_single in Hi. destruct Hi as [Hi|[=]]. now exists D.
+  Qed.
+  Lemma rem_below_none done k h : rem_below (done ++ [(k, None)]) h <-> rem_below done h \/ below m h k.
+  Proof.
+    split.
+    - intros (D & Hi & B). apply in_app_single in Hi. destruct Hi as [Hi|[= ->]]; [left; now exists D|now right].
+    - intros [R|B]; [now apply rem_below_mono|]. exists k. split; [apply in_or_app; right; now left|exact B].
+  Qed.
   Lemma trig_mono done e h : trig done h -> trig (done ++ [e]) h.
   Proof. intros (x & Hi & T). exists x. split; [apply in_or_app; now left|exact T]. Qed.
-
-  (* a deletion that has not been processed yet: nothing below it was removed so far *)
-  Lemma unprocessed_not_removed done D y :
-    (forall x, In x done -> In x L) -> In (D, None) L -> pd done D = false -> below m y D -> ~ rem_below done y.
+  Lemma trig2_mono done e h : trig2 done h -> trig2 (done ++ [e]) h.
   Proof.
-    intros Hd HD Hp B (D2 & Hi & B2).
-    assert (Hne : D2 <> D) by (intros ->; rewrite (pd_in _ _ _ Hi) in Hp; discriminate).
-    destruct (below_linear m y D B D2 B2) as [X|X].
-    - apply (Sdel D2 D (Hd _ Hi) HD); [congruence|exact X].
-    - apply (Sdel D D2 HD (Hd _ Hi) Hne X).
+    intros [T Td]. split; [now apply trig_mono|]. intros E. destruct (Td E) as (c & dc & Hi & R).
+    exists c, dc. split; [apply in_or_app; now left|exact R].
+  Qed.
+  Lemma trig_app done e h : trig (done ++ [e]) h -> trig done h \/ trig_item e h.
+  Proof. intros (x & Hi & T). apply in_app_single in Hi. destruct Hi as [Hi| ->]; [left; now exists x|now right]. Qed.
+
+  (* the current descriptor of a handle that exists, expressed through the original one *)
+  Lemma current_parent done mc b x dx : Inv1 done mc b -> descrs mc x = Some dx ->
+    (exists d, In (x, Some d) L /\ descrs m x = None /\ d_parent dx = d_parent d) \/
+    (exists d0, descrs m x = Some d0 /\ d_parent dx = d_parent d0).
+  Proof.
+    intros HI E. pose proof (i_d _ _ _ HI x) as S. unfold dspec in S.
+    destruct (alist_get L x) as [[d|]|] eqn:G; destruct (descrs m x) as [d0|] eqn:Eo.
+    - right. exists d0. split; [reflexivity|]. apply L_in in G. pose proof (HLi _ _ G) as Ok. unfold ditem_ok in Ok.
+      rewrite Eo in Ok. destruct Ok as (Op & _). destruct (pd done x); rewrite E in S; [|congruence]. injection S as ->. exact Op.
+    - left. exists d. apply L_in in G. split; [exact G|]. split; [reflexivity|].
+      destruct (pd done x); rewrite E in S; [|discriminate]. injection S as ->. now destruct (memz x b).
+    - right. exists d0. split; [reflexivity|]. destruct S as [S1 S2]. destruct (rem_below_dec done x) as [R|R].
+      + rewrite (S1 R) in E. discriminate.
+      + rewrite (S2 R) in E. injection E as <-. now destruct (memz x b).
+    - congruence.
+    - right. exists d0. split; [reflexivity|]. destruct S as [S1 S2]. destruct (rem_below_dec done x) as [R|R].
+      + rewrite (S1 R) in E. discriminate.
+      + rewrite (S2 R) in E. injection E as <-. now destruct (memz x b).
+    - congruence.
   Qed.
 
-  Lemma intact done mc b D :
-    (forall x, In x done -> In x L) -> Inv1 done mc b -> In (D, None) L -> pd done D = false ->
-    forall y, below m y D -> descrs mc y = descrs m y.
-  Proof.
-    intros Hd HI HD Hp y B. pose proof (i_d _ _ _ HI y) as S. unfold dspec in S.
-    destruct (alist_get L y) as [[d|]|] eqn:G.
-    - exfalso. apply L_in in G. destruct (descrs m y) as [o|] eqn:Eo.
-      + apply (Sup D y d HD G); [congruence|exact B].
-      + apply (below_absent _ _ _ Eo) in B. subst y. pose proof (nodup_fst_eq _ _ _ _ HLn G HD). discriminate.
-    - apply L_in in G. destruct (Z.eq_dec y D) as [->|Hne]; [now rewrite Hp in S|].
-      exfalso. exact (Sdel D y HD G Hne B).
-    - destruct (descrs m y) as [d0|] eqn:Eo; [|exact S]. destruct S as [S1 S2].
-      pose proof (unprocessed_not_removed done D y Hd HD Hp B) as NR. specialize (S2 NR).
-      destruct S1 as [S1|S1]; [contradiction|]. rewrite S1. f_equal.
-      destruct (memz y b) eqn:Mb; [|reflexivity]. exfalso.
-      destruct (i_b1 _ _ _ HI y Mb) as [(d & Hi & _)|(_ & e & Hi & T)].
-      + apply Hd, L_get in Hi. congruence.
-      + unfold trig_item in T. destruct e as [c [d|]]; cbn [fst snd] in T.
-        * destruct T as [Ec Pc]. exact (Sadd D c d y HD (Hd _ Hi) Ec Pc B).
-        * destruct T as (dc & Ec & Pc).
-          assert (c <> D) by (intros ->; rewrite (pd_in _ _ _ Hi) in Hp; discriminate).
-          apply (Sdel D c HD (Hd _ Hi)); [assumption|]. eapply below_step; eassumption.
-  Qed.
-
+  (* whatever the loop removes lies in a removed subtree of the original MDIB *)
   Lemma below_mc_m done mc b D : Inv1 done mc b -> In (D, None) L -> forall x, below mc x D -> below m x D.
   Proof.
     intros HI HD x B. induction B as [x|x dx p r E P B IH]; [apply below_refl|]. specialize (IH HD).
-    pose proof (i_d _ _ _ HI x) as S. unfold dspec in S.
-    destruct (alist_get L x) as [[d|]|] eqn:G.
-    - apply L_in in G. pose proof (HLi _ _ G) as Ok. unfold ditem_ok in Ok.
-      destruct (pd done x).
-      + rewrite E in S. injection S as ->. destruct (descrs m x) as [o|] eqn:Eo.
-        * destruct Ok as (Pp & _). eapply below_step; [exact Eo|rewrite <- Pp; exact P|exact IH].
-        * exfalso. exact (Sadd r x d p HD G Eo P IH).
-      + rewrite E in S. eapply below_step; [symmetry; exact S|exact P|exact IH].
-    - destruct (pd done x); [congruence|]. rewrite E in S. eapply below_step; [symmetry; exact S|exact P|exact IH].
-    - destruct (descrs m x) as [d0|] eqn:Eo; [|congruence]. destruct S as [[S|S] _]; [congruence|].
-      rewrite E in S. injection S as ->. eapply below_step; [exact Eo| |exact IH].
-      destruct (memz x b); exact P.
+    destruct (current_parent done mc b x dx HI E) as [(d & Hi & Eo & Pd)|(d0 & Eo & Pd)].
+    - exfalso. rewrite P in Pd. apply (Hnc_p x d p Hi (eq_sym Pd)). now apply (below_Rm r).
+    - eapply below_step; [exact Eo|rewrite <- Pd; exact P|exact IH].
   Qed.
 
-  (* ------------------------------------------------ the four primitive steps *)
+  (* a handle below D that is still there when D is removed goes with it *)
+  Lemma still_there_in_subtree done mc b D : (forall e, In e done -> In e L) -> Inv1 done mc b -> In (D, None) L ->
+    forall x, below m x D -> descrs mc x <> None -> In x (subtree mc D).
+  Proof.
+    intros Hd HI HD x B Ex. apply subtree_In. split; [now apply (i_dom _ _ _ HI)|]. split; [exact Ex|].
+    apply (reaches_mono mc (length (ddom m))); [apply (i_dom2 _ _ _ HI)|].
+    apply (reaches_transfer2 m mc D); [|now apply fuel_ok].
+    intros y Bxy ByD Hne.
+    pose proof (below_Rm D y HD ByD) as Ry. destruct (Rm_below y Ry) as [Ey _].
+    destruct (descrs m y) as [d0|] eqn:Eo; [|contradiction].
+    pose proof (i_d _ _ _ HI y) as S. unfold dspec in S. rewrite Eo in S.
+    assert (NR : ~ rem_below done y).
+    { intros (D2 & Hi & B2). apply Ex.
+      assert (Rx : rem_below done x) by (exists D2; split; [exact Hi|eapply below_trans; eassumption]).
+      pose proof (i_d _ _ _ HI x) as Sx. unfold dspec in Sx.
+      assert (Exo : descrs m x <> None) by (apply (Rm_below x), (below_Rm D x HD B)).
+      destruct (descrs m x) as [dx0|] eqn:Exo'; [|contradiction].
+      destruct (alist_get L x) as [[d|]|] eqn:G; [|now apply Sx|now apply Sx].
+      exfalso. apply L_in in G. apply (Hnc_h x d G). exact (below_Rm D x HD B). }
+    destruct (alist_get L y) as [[d|]|] eqn:G.
+    - exfalso. apply L_in in G. exact (Hnc_h y d G Ry).
+    - destruct S as [_ S]. rewrite (S NR). exists d0. eexists. split; [reflexivity|]. split; [reflexivity|]. now destruct (memz y b).
+    - destruct S as [_ S]. rewrite (S NR). exists d0. eexists. split; [reflexivity|]. split; [reflexivity|]. now destruct (memz y b).
+  Qed.
+
+  Lemma dspec_same done done' mc mc' b b' x :
+    descrs mc' x = descrs mc x -> (forall d, alist_get L x = Some (Some d) -> pd done' x = pd done x) ->
+    (rem_below done' x <-> rem_below done x) -> memz x b' = memz x b ->
+    dspec done mc b x -> dspec done' mc' b' x.
+  Proof.
+    unfold dspec. intros E1 E2 E3 E4. rewrite E1, E4.
+    destruct (alist_get L x) as [[d|]|]; destruct (descrs m x); try rewrite (E2 d eq_refl); try rewrite E3; tauto.
+  Qed.
+
+  (* ------------------------------------------------ the primitive steps *)
   Lemma inv1_create done rest h d mc b : L = done ++ (h, Some d) :: rest -> descrs m h = None ->
     Inv1 done mc b -> Inv1 (done ++ [(h, Some d)]) (set_descr mc h (Some d)) b.
   Proof.
     intros HL Eo HI. pose proof (e_in _ _ _ HL) as He. pose proof (L_get _ _ He) as Ge.
+    pose proof (e_not_done _ _ _ HL) as Hp. cbn [fst] in Hp.
+    assert (Ec : descrs mc h = None).
+    { pose proof (i_d _ _ _ HI h) as S. unfold dspec in S. now rewrite Ge, Eo, Hp in S. }
+    assert (Mb : memz h b = false).
+    { destruct (memz h b) eqn:Mb; [|reflexivity]. exfalso. exact (i_bex _ _ _ HI h Mb Ec). }
     constructor.
-    - intros x. pose proof (i_d _ _ _ HI x) as S. unfold dspec in *. rewrite set_descr_descrs, pd_app. cbn [fst].
-      destruct (Z.eqb_spec h x) as [<-|Hne].
-      + rewrite Ge, Z.eqb_refl, orb_true_r. reflexivity.
-      + destruct (Z.eqb_spec x h) as [->|_]; [congruence|]. rewrite orb_false_r.
-        destruct (alist_get L x) as [[dx|]|]; try exact S.
-        destruct (descrs m x); [|exact S]. destruct S as [S1 S2]. split; [exact S1|].
-        intros NR. apply S2. intros R. apply NR. now apply rem_below_mono.
-    - intros D x Hi Hx. apply in_app_single in Hi. destruct Hi as [Hi|[=]].
-      rewrite set_descr_descrs. destruct (Z.eqb_spec h x) as [<-|_]; [|eapply i_rem; eassumption].
-      apply subtree_In in Hx. tauto.
-    - intros x Mb. destruct (i_b1 _ _ _ HI x Mb) as [(dx & Hi & Ex)|(G & T)].
+    - intros x. destruct (Z.eq_dec x h) as [->|Hne].
+      + unfold dspec. rewrite Ge, Eo, pd_app, set_descr_descrs, Z.eqb_refl. cbn [fst]. rewrite Z.eqb_refl, orb_true_r, Mb. reflexivity.
+      + apply (dspec_same done _ mc _ b b x); [| | |reflexivity|exact (i_d _ _ _ HI x)].
+        * rewrite set_descr_descrs. destruct (Z.eqb_spec h x); [congruence|reflexivity].
+        * intros _ _. rewrite pd_app. cbn [fst]. destruct (Z.eqb_spec x h); [congruence|]. apply orb_false_r.
+        * apply rem_below_some.
+    - intros x Mx. destruct (i_b1 _ _ _ HI x Mx) as [NR [(dx & Hi & Ex)|(G & T)]]; (split; [exact NR|]).
       + left. exists dx. split; [apply in_or_app; now left|exact Ex].
-      + right. split; [exact G|now apply trig_mono].
+      + right. split; [exact G|now apply trig2_mono].
+    - intros x Mx. rewrite set_descr_descrs. destruct (Z.eqb h x); [discriminate|]. now apply (i_bex _ _ _ HI).
     - intros x. rewrite set_descr_descrs. cbn [ddom set_descr]. rewrite add_dom_In.
       destruct (Z.eqb_spec h x) as [<-|_]; [now left|]. intros Hx. right. now apply (i_dom _ _ _ HI).
     - destruct (i_dom2 _ _ _ HI) as [I1 I2]. cbn [ddom set_descr]. split.
       + intros x Hx. apply add_dom_In. right. now apply I1.
       + pose proof (add_dom_len h (ddom mc)). lia.
-    - intros D x d0 Hi Hx Ex. apply in_app_single in Hi. destruct Hi as [Hi|[=]].
-      rewrite set_descr_svd. eapply i_svd1; eassumption.
-    - intros x NR. rewrite set_descr_svd. apply (i_svd2 _ _ _ HI). intros R. apply NR. now apply rem_below_mono.
-    - exact (i_st1 _ _ _ HI).
-    - intros D x Hi Hx. apply in_app_single in Hi. destruct Hi as [Hi|[=]]. eapply (i_st2 _ _ _ HI); eassumption.
-    - intros x NR. apply (i_st3 _ _ _ HI). intros R. apply NR. now apply rem_below_mono.
-    - intros x Hx. rewrite set_descr_descrs. destruct (Z.eqb h x); [discriminate|]. now apply (i_st4 _ _ _ HI).
-    - intros D x s Hi Hx Ex. apply in_app_single in Hi. destruct Hi as [Hi|[=]]. eapply (i_svs1 _ _ _ HI); eassumption.
-    - intros x NR. apply (i_svs2 _ _ _ HI). intros R. apply NR. now apply rem_below_mono.
+    - intros x NR. rewrite set_descr_svd. apply (i_svd2 _ _ _ HI). intros R0; apply NR; now apply rem_below_mono.
     - intros x d0 Ex En. rewrite set_descr_svd. rewrite set_descr_descrs in En.
       destruct (Z.eqb h x); [discriminate|]. eapply i_svd3; eassumption.
+    - exact (i_st1 _ _ _ HI).
+    - intros x R. apply (i_stR _ _ _ HI). exact (proj1 (rem_below_some _ _ _ _) R).
+    - intros x NR. apply (i_st3 _ _ _ HI). intros R0; apply NR; now apply rem_below_mono.
+    - intros x Hx. rewrite set_descr_descrs. destruct (Z.eqb h x); [discriminate|]. now apply (i_st4 _ _ _ HI).
+    - intros x s R. apply (i_svsR _ _ _ HI). exact (proj1 (rem_below_some _ _ _ _) R).
+    - intros x NR. apply (i_svs2 _ _ _ HI). intros R0; apply NR; now apply rem_below_mono.
   Qed.
 
   Lemma inv1_update done rest h d mc b : L = done ++ (h, Some d) :: rest -> descrs m h <> None ->
@@ -919,186 +1055,222 @@ Section DescrFold.
   Proof.
     intros HL Eo HI. pose proof (e_in _ _ _ HL) as He. pose proof (L_get _ _ He) as Ge.
     constructor.
-    - intros x. pose proof (i_d _ _ _ HI x) as S. unfold dspec in *. rewrite set_descr_descrs, pd_app. cbn [fst].
-      destruct (Z.eqb_spec h x) as [<-|Hne].
-      + rewrite Ge, Z.eqb_refl, orb_true_r. reflexivity.
-      + destruct (Z.eqb_spec x h) as [->|_]; [congruence|]. rewrite orb_false_r.
-        destruct (alist_get L x) as [[dx|]|]; try exact S.
-        destruct (descrs m x); [|exact S]. destruct S as [S1 S2]. split.
-        * rewrite memz_cons. destruct (Z.eqb_spec x h); [congruence|]. exact S1.
-        * intros NR. apply S2. intros R. apply NR. now apply rem_below_mono.
-    - intros D x Hi Hx. apply in_app_single in Hi. destruct Hi as [Hi|[=]].
-      rewrite set_descr_descrs. destruct (Z.eqb_spec h x) as [<-|_]; [|eapply i_rem; eassumption].
-      exfalso. apply subtree_In in Hx. destruct Hx as (_ & _ & R). apply reaches_below in R.
-      exact (Sup D h d (done_in _ _ _ HL _ Hi) He Eo R).
-    - intros x Mb. rewrite memz_cons in Mb. destruct (Z.eqb_spec x h) as [Exh|_].
-      + subst x. left. exists d. split; [apply in_or_app; right; now left|exact Eo].
-      + destruct (i_b1 _ _ _ HI x Mb) as [(dx & Hi & Ex)|(G & T)].
+    - intros x. destruct (Z.eq_dec x h) as [->|Hne].
+      + unfold dspec. rewrite Ge, pd_app, set_descr_descrs, Z.eqb_refl. cbn [fst]. rewrite Z.eqb_refl, orb_true_r.
+        destruct (descrs m h); [reflexivity|contradiction].
+      + apply (dspec_same done _ mc _ b (h :: b) x); [| | | |exact (i_d _ _ _ HI x)].
+        * rewrite set_descr_descrs. destruct (Z.eqb_spec h x); [congruence|reflexivity].
+        * intros _ _. rewrite pd_app. cbn [fst]. destruct (Z.eqb_spec x h); [congruence|]. apply orb_false_r.
+        * apply rem_below_some.
+        * rewrite memz_cons. destruct (Z.eqb_spec x h); [congruence|reflexivity].
+    - intros x Mx. rewrite memz_cons in Mx. destruct (Z.eqb_spec x h) as [Exh|_].
+      + subst x. split; [exact (Hnc_h h d He)|]. left. exists d. split; [apply in_or_app; right; now left|exact Eo].
+      + destruct (i_b1 _ _ _ HI x Mx) as [NR [(dx & Hi & Ex)|(G & T)]]; (split; [exact NR|]).
         * left. exists dx. split; [apply in_or_app; now left|exact Ex].
-        * right. split; [exact G|now apply trig_mono].
+        * right. split; [exact G|now apply trig2_mono].
+    - intros x Mx. rewrite set_descr_descrs. destruct (Z.eqb_spec h x) as [|Hne]; [discriminate|].
+      rewrite memz_cons in Mx. destruct (Z.eqb_spec x h); [congruence|]. now apply (i_bex _ _ _ HI).
     - intros x. rewrite set_descr_descrs. cbn [ddom set_descr]. rewrite add_dom_In.
       destruct (Z.eqb_spec h x) as [<-|_]; [now left|]. intros Hx. right. now apply (i_dom _ _ _ HI).
     - destruct (i_dom2 _ _ _ HI) as [I1 I2]. cbn [ddom set_descr]. split.
       + intros x Hx. apply add_dom_In. right. now apply I1.
       + pose proof (add_dom_len h (ddom mc)). lia.
-    - intros D x d0 Hi Hx Ex. apply in_app_single in Hi. destruct Hi as [Hi|[=]].
-      rewrite set_descr_svd. eapply i_svd1; eassumption.
-    - intros x NR. rewrite set_descr_svd. apply (i_svd2 _ _ _ HI). intros R. apply NR. now apply rem_below_mono.
-    - exact (i_st1 _ _ _ HI).
-    - intros D x Hi Hx. apply in_app_single in Hi. destruct Hi as [Hi|[=]]. eapply (i_st2 _ _ _ HI); eassumption.
-    - intros x NR. apply (i_st3 _ _ _ HI). intros R. apply NR. now apply rem_below_mono.
-    - intros x Hx. rewrite set_descr_descrs. destruct (Z.eqb h x); [discriminate|]. now apply (i_st4 _ _ _ HI).
-    - intros D x s Hi Hx Ex. apply in_app_single in Hi. destruct Hi as [Hi|[=]]. eapply (i_svs1 _ _ _ HI); eassumption.
-    - intros x NR. apply (i_svs2 _ _ _ HI). intros R. apply NR. now apply rem_below_mono.
+    - intros x NR. rewrite set_descr_svd. apply (i_svd2 _ _ _ HI). intros R0; apply NR; now apply rem_below_mono.
     - intros x d0 Ex En. rewrite set_descr_svd. rewrite set_descr_descrs in En.
       destruct (Z.eqb h x); [discriminate|]. eapply i_svd3; eassumption.
+    - exact (i_st1 _ _ _ HI).
+    - intros x R. apply (i_stR _ _ _ HI). exact (proj1 (rem_below_some _ _ _ _) R).
+    - intros x NR. apply (i_st3 _ _ _ HI). intros R0; apply NR; now apply rem_below_mono.
+    - intros x Hx. rewrite set_descr_descrs. destruct (Z.eqb h x); [discriminate|]. now apply (i_st4 _ _ _ HI).
+    - intros x s R. apply (i_svsR _ _ _ HI). exact (proj1 (rem_below_some _ _ _ _) R).
+    - intros x NR. apply (i_svs2 _ _ _ HI). intros R0; apply NR; now apply rem_below_mono.
   Qed.
 
-  (* the parent bump: p is not an item, exists, was not bumped before, and lies in no deleted subtree *)
+  (* the parent bump: p exists, is not removed by this transaction, is not updated by it and was not bumped before *)
   Lemma inv1_bump done p dp mc b :
-    Inv1 done mc b -> alist_get L p = None -> memz p b = false -> descrs mc p = Some dp ->
-    trig done p -> (forall D, In (D, None) L -> ~ below m p D) -> (forall x, In x done -> In x L) ->
+    Inv1 done mc b -> (forall x, In x done -> In x L) -> descrs mc p = Some dp -> memz p b = false ->
+    ~ Rm p -> no_upd p -> trig2 done p ->
     Inv1 done (set_descr mc p (Some (bumpd dp))) (p :: b).
   Proof.
-    intros HI Gp Mb Ep Tp Safe Hd.
-    assert (Eo : descrs m p = Some dp).
-    { pose proof (i_d _ _ _ HI p) as S. unfold dspec in S. rewrite Gp in S.
-      destruct (descrs m p) as [d0|]; [|congruence]. destruct S as [[S|S] _]; [congruence|].
-      rewrite Mb in S. congruence. }
+    intros HI Hd Ep Mb NRm Nu Tp.
+    assert (NR : ~ rem_below done p) by (intros R; apply NRm; eapply rem_below_Rm; eassumption).
     constructor.
-    - intros x. pose proof (i_d _ _ _ HI x) as S. unfold dspec in *. rewrite set_descr_descrs.
-      destruct (Z.eqb_spec p x) as [<-|Hne].
-      + rewrite Gp, Eo. split; [right; now rewrite memz_cons, Z.eqb_refl|discriminate].
-      + destruct (alist_get L x) as [[dx|]|]; try exact S.
-        destruct (descrs m x); [|exact S]. destruct S as [S1 S2]. split; [|exact S2].
-        rewrite memz_cons. destruct (Z.eqb_spec x p); [congruence|]. exact S1.
-    - intros D x Hi Hx. rewrite set_descr_descrs. destruct (Z.eqb_spec p x) as [<-|_]; [|eapply i_rem; eassumption].
-      exfalso. apply subtree_In in Hx. destruct Hx as (_ & _ & R). apply reaches_below in R.
-      exact (Safe D (Hd _ Hi) R).
+    - intros x. destruct (Z.eq_dec x p) as [->|Hne].
+      + pose proof (i_d _ _ _ HI p) as S. unfold dspec in *. rewrite set_descr_descrs, Z.eqb_refl, memz_cons, Z.eqb_refl. cbn [orb].
+        rewrite Ep, Mb in S.
+        destruct (alist_get L p) as [[d|]|] eqn:G; destruct (descrs m p) as [d0|] eqn:Eo; try discriminate.
+        * apply L_in in G. specialize (Nu d G). congruence.
+        * destruct (pd done p); [|discriminate]. now injection S as <-.
+        * destruct S as [_ S]. specialize (S NR). injection S as <-. split; [tauto|reflexivity].
+        * destruct S as [_ S]. specialize (S NR). injection S as <-. split; [tauto|reflexivity].
+      + apply (dspec_same done done mc _ b (p :: b) x); [|reflexivity|tauto| |exact (i_d _ _ _ HI x)].
+        * rewrite set_descr_descrs. destruct (Z.eqb_spec p x); [congruence|reflexivity].
+        * rewrite memz_cons. destruct (Z.eqb_spec x p); [congruence|reflexivity].
     - intros x Mx. rewrite memz_cons in Mx. destruct (Z.eqb_spec x p) as [Exp|_].
-      + subst x. right. split; assumption.
+      + subst x. split; [exact NRm|]. right. now split.
       + exact (i_b1 _ _ _ HI x Mx).
+    - intros x Mx. rewrite set_descr_descrs. destruct (Z.eqb_spec p x) as [|Hne]; [discriminate|].
+      rewrite memz_cons in Mx. destruct (Z.eqb_spec x p); [congruence|]. now apply (i_bex _ _ _ HI).
     - intros x. rewrite set_descr_descrs. cbn [ddom set_descr]. rewrite add_dom_In.
       destruct (Z.eqb_spec p x) as [<-|_]; [now left|]. intros Hx. right. now apply (i_dom _ _ _ HI).
     - destruct (i_dom2 _ _ _ HI) as [I1 I2]. cbn [ddom set_descr]. split.
       + intros x Hx. apply add_dom_In. right. now apply I1.
       + pose proof (add_dom_len p (ddom mc)). lia.
-    - intros D x d0 Hi Hx Ex. rewrite set_descr_svd. eapply i_svd1; eassumption.
-    - intros x NR. rewrite set_descr_svd. now apply (i_svd2 _ _ _ HI).
-    - exact (i_st1 _ _ _ HI).
-    - exact (i_st2 _ _ _ HI).
-    - exact (i_st3 _ _ _ HI).
-    - intros x Hx. rewrite set_descr_descrs. destruct (Z.eqb p x); [discriminate|]. now apply (i_st4 _ _ _ HI).
-    - exact (i_svs1 _ _ _ HI).
-    - exact (i_svs2 _ _ _ HI).
+    - intros x NRx. rewrite set_descr_svd. now apply (i_svd2 _ _ _ HI).
     - intros x d0 Ex En. rewrite set_descr_svd. rewrite set_descr_descrs in En.
       destruct (Z.eqb p x); [discriminate|]. eapply i_svd3; eassumption.
+    - exact (i_st1 _ _ _ HI).
+    - exact (i_stR _ _ _ HI).
+    - exact (i_st3 _ _ _ HI).
+    - intros x Hx. rewrite set_descr_descrs. destruct (Z.eqb p x); [discriminate|]. now apply (i_st4 _ _ _ HI).
+    - exact (i_svsR _ _ _ HI).
+    - exact (i_svs2 _ _ _ HI).
   Qed.
-  Lemma inv1_delete done rest D mc b : L = done ++ (D, None) :: rest ->
-    Inv1 done mc b ->
-    descrs mc D = descrs m D /\ (forall x, In x (subtree mc D) -> below m x D) /\
-    (forall x, In x (subtree m D) -> In x (subtree mc D)) /\
+
+  (* a removal whose descriptor already went with an ancestor's subtree: nothing happens *)
+  Lemma inv1_skip done rest D mc b : L = done ++ (D, None) :: rest -> Inv1 done mc b -> descrs mc D = None ->
+    rem_below done D /\ (forall x, rem_below (done ++ [(D, None)]) x <-> rem_below done x) /\
+    Inv1 (done ++ [(D, None)]) mc b.
+  Proof.
+    intros HL HI Ec. pose proof (e_in _ _ _ HL) as He. pose proof (L_get _ _ He) as Ge.
+    assert (RD : rem_below done D).
+    { pose proof (i_d _ _ _ HI D) as S. unfold dspec in S. rewrite Ge in S. pose proof (del_exists D He) as Ex.
+      destruct (descrs m D); [|contradiction]. destruct S as [_ S].
+      destruct (rem_below_dec done D) as [R|R]; [exact R|]. rewrite (S R) in Ec. discriminate. }
+    assert (Iff : forall x, rem_below (done ++ [(D, None)]) x <-> rem_below done x).
+    { intros x. rewrite rem_below_none. split; [|tauto]. intros [R|B]; [exact R|].
+      destruct RD as (D2 & Hi & B2). exists D2. split; [exact Hi|eapply below_trans; eassumption]. }
+    split; [exact RD|]. split; [exact Iff|]. destruct HI as [Id Ib1 Ibex Idom Idom2 Isvd2 Isvd3 Ist1 IstR Ist3 Ist4 IsvsR Isvs2].
+    constructor; try assumption.
+    - intros x. apply (dspec_same done _ mc mc b b x); [reflexivity| |apply Iff|reflexivity|apply Id].
+      intros d Gx. rewrite pd_app. cbn [fst]. destruct (Z.eqb_spec x D) as [->|]; [congruence|apply orb_false_r].
+    - intros x Mx. destruct (Ib1 x Mx) as [NR [(dx & Hi & Ex)|(G & T)]]; (split; [exact NR|]).
+      + left. exists dx. split; [apply in_or_app; now left|exact Ex].
+      + right. split; [exact G|now apply trig2_mono].
+    - intros x NR. apply Isvd2. now rewrite <- Iff.
+    - intros x R. apply IstR. now apply Iff.
+    - intros x NR. apply Ist3. now rewrite <- Iff.
+    - intros x s R. apply IsvsR. now apply Iff.
+    - intros x NR. apply Isvs2. now rewrite <- Iff.
+  Qed.
+
+  Lemma inv1_delete done rest D o mc b : L = done ++ (D, None) :: rest -> Inv1 done mc b -> descrs mc D = Some o ->
+    descrs m D = Some o /\ (forall x, In x (subtree mc D) -> below m x D) /\
+    (forall x, below m x D -> descrs mc x <> None -> In x (subtree mc D)) /\
     Inv1 (done ++ [(D, None)]) (fold_left rm_one (subtree mc D) mc) b.
   Proof.
-    intros HL HI. pose proof (e_in _ _ _ HL) as He. pose proof (L_get _ _ He) as Ge.
-    pose proof (e_not_done _ _ _ HL) as Hp. cbn [fst] in Hp.
+    intros HL HI Ec. pose proof (e_in _ _ _ HL) as He. pose proof (L_get _ _ He) as Ge.
     pose proof (done_in _ _ _ HL) as Hd.
-    pose proof (intact done mc b D Hd HI He Hp) as Hint.
-    assert (ED : descrs mc D = descrs m D) by (apply Hint, below_refl).
-    assert (EoD : descrs m D <> None).
-    { pose proof (HLi _ _ He) as Ok. unfold ditem_ok in Ok. destruct (descrs m D); [discriminate|contradiction]. }
     set (l := subtree mc D).
     assert (F1 : forall x, In x l -> below m x D).
     { intros x Hx. apply subtree_In in Hx. destruct Hx as (_ & _ & R). apply reaches_below in R.
       eapply below_mc_m; eassumption. }
-    assert (F2 : forall x, In x (subtree m D) -> In x l).
-    { intros x Hx. apply subtree_In in Hx. destruct Hx as (Hx1 & Hx2 & R).
-      pose proof (reaches_below _ _ _ _ R) as B. apply subtree_In.
-      assert (Ex : descrs mc x <> None) by (rewrite (Hint x B); exact Hx2).
-      split; [now apply (i_dom _ _ _ HI)|]. split; [exact Ex|].
-      apply (reaches_mono mc (length (ddom m))); [apply (i_dom2 _ _ _ HI)|].
-      apply (reaches_transfer m mc D Hint). exact R. }
-    assert (NRl : forall x, In x l -> ~ rem_below done x).
-    { intros x Hx. apply (unprocessed_not_removed done D x Hd He Hp). now apply F1. }
-    split; [exact ED|]. split; [exact F1|]. split; [exact F2|].
+    assert (F2 : forall x, below m x D -> descrs mc x <> None -> In x l).
+    { intros x B Ex. eapply still_there_in_subtree; eassumption. }
+    assert (F3 : forall x, In x l -> Rm x) by (intros x Hx; apply (below_Rm D); [exact He|now apply F1]).
+    assert (NB : forall x, memz x b = true -> memz x l = false).
+    { intros x Mx. apply memz_false. intros Hx. exact (proj1 (i_b1 _ _ _ HI x Mx) (F3 x Hx)). }
+    assert (Gone : forall x, below m x D -> memz x l = false -> descrs mc x = None).
+    { intros x B Ml. destruct (descrs mc x) eqn:E; [|reflexivity]. exfalso.
+      apply memz_false in Ml. apply Ml, F2; [exact B|congruence]. }
+    assert (EoD : descrs m D = Some o).
+    { pose proof (i_d _ _ _ HI D) as S. unfold dspec in S. rewrite Ge in S. pose proof (del_exists D He) as Ex.
+      destruct (descrs m D) as [d0|]; [|contradiction]. destruct S as [S1 S2].
+      destruct (rem_below_dec done D) as [R|R]; [rewrite (S1 R) in Ec; discriminate|].
+      rewrite (S2 R) in Ec. destruct (memz D b) eqn:Mb; [|congruence].
+      exfalso. apply (proj1 (i_b1 _ _ _ HI D Mb)). apply (below_Rm D); [exact He|apply below_refl]. }
+    split; [exact EoD|]. split; [exact F1|]. split; [exact F2|].
     constructor.
-    - intros x. pose proof (i_d _ _ _ HI x) as S. unfold dspec in *. rewrite rm_list_descrs, pd_app. cbn [fst].
+    - intros x. pose proof (i_d _ _ _ HI x) as S. unfold dspec in *. rewrite rm_list_descrs. fold l.
       destruct (alist_get L x) as [[dx|]|] eqn:G.
-      + apply L_in in G. assert (Hne : x <> D) by (intros ->; pose proof (nodup_fst_eq _ _ _ _ HLn G He); discriminate).
-        destruct (Z.eqb_spec x D); [contradiction|]. rewrite orb_false_r.
-        destruct (memz x l) eqn:Ml; [|exact S]. exfalso. apply memz_In, F1 in Ml.
-        destruct (descrs m x) as [o|] eqn:Eo.
-        * apply (Sup D x dx He G); [congruence|exact Ml].
-        * apply (below_absent _ _ _ Eo) in Ml. contradiction.
-      + apply L_in in G. destruct (Z.eqb_spec x D) as [->|Hne].
-        * rewrite orb_true_r. assert (Ml : memz D l = true).
-          { apply memz_In, F2, subtree_In. split; [now apply Hdom|]. split; [exact EoD|].
-            destruct (length (ddom m)); cbn [reaches]; now rewrite Z.eqb_refl. }
-          now rewrite Ml.
-        * rewrite orb_false_r. destruct (memz x l) eqn:Ml; [|exact S]. exfalso. apply memz_In, F1 in Ml.
-          exact (Sdel D x He G Hne Ml).
-      + destruct (descrs m x) as [d0|] eqn:Eo.
-        * destruct S as [S1 S2]. split.
-          -- destruct (memz x l); [now left|exact S1].
-          -- intros NR. destruct (memz x l) eqn:Ml.
-             ++ exfalso. apply NR. exists D. split; [apply in_or_app; right; now left|]. apply F1. now apply memz_In.
-             ++ apply S2. intros R. apply NR. now apply rem_below_mono.
-        * destruct (memz x l); [reflexivity|exact S].
-    - intros D' x Hi Hx. rewrite rm_list_descrs. apply in_app_single in Hi. destruct Hi as [Hi|[= ->]].
-      + rewrite (i_rem _ _ _ HI D' x Hi Hx). now destruct (memz x l).
-      + apply F2, memz_In in Hx. now rewrite Hx.
-    - intros x Mb. destruct (i_b1 _ _ _ HI x Mb) as [(dx & Hi & Ex)|(G & T)].
+      + apply L_in in G. assert (Ml : memz x l = false) by (apply memz_false; intros Hx; exact (Hnc_h x dx G (F3 x Hx))).
+        assert (Hne : x <> D) by (intros ->; pose proof (nodup_fst_eq _ _ _ _ HLn G He); discriminate).
+        rewrite Ml, pd_app. cbn [fst]. destruct (Z.eqb_spec x D); [contradiction|]. rewrite orb_false_r. exact S.
+      + destruct (descrs m x) as [d0|] eqn:Eo; [|now destruct (memz x l)].
+        destruct S as [S1 S2]. split.
+        * intros R. apply rem_below_none in R. destruct (memz x l) eqn:Ml; [reflexivity|].
+          destruct R as [R|B]; [now apply S1|now apply Gone].
+        * intros NR. rewrite rem_below_none in NR.
+          assert (Ml : memz x l = false) by (apply memz_false; intros Hx; apply NR; right; now apply F1).
+          rewrite Ml. apply S2. tauto.
+      + destruct (descrs m x) as [d0|] eqn:Eo; [|now destruct (memz x l)].
+        destruct S as [S1 S2]. split.
+        * intros R. apply rem_below_none in R. destruct (memz x l) eqn:Ml; [reflexivity|].
+          destruct R as [R|B]; [now apply S1|now apply Gone].
+        * intros NR. rewrite rem_below_none in NR.
+          assert (Ml : memz x l = false) by (apply memz_false; intros Hx; apply NR; right; now apply F1).
+          rewrite Ml. apply S2. tauto.
+    - intros x Mx. destruct (i_b1 _ _ _ HI x Mx) as [NR [(dx & Hi & Ex)|(G & T)]]; (split; [exact NR|]).
       + left. exists dx. split; [apply in_or_app; now left|exact Ex].
-      + right. split; [exact G|now apply trig_mono].
-    - intros x. rewrite rm_list_descrs. destruct (memz x l); [congruence|]. intros Hx.
+      + right. split; [exact G|now apply trig2_mono].
+    - intros x Mx. rewrite rm_list_descrs. fold l. rewrite (NB x Mx). now apply (i_bex _ _ _ HI).
+    - intros x. rewrite rm_list_descrs. fold l. destruct (memz x l); [congruence|]. intros Hx.
       apply (proj1 (rm_list_ddom l mc)). now apply (i_dom _ _ _ HI).
     - destruct (i_dom2 _ _ _ HI) as [I1 I2]. destruct (rm_list_ddom l mc) as [J1 J2]. split.
       + intros x Hx. apply J1. now apply I1.
       + lia.
-    - intros D' x d0 Hi Hx Ex. rewrite rm_list_svd. apply in_app_single in Hi. destruct Hi as [Hi|[= ->]].
-      + rewrite (i_rem _ _ _ HI D' x Hi Hx). destruct (memz x l); eapply (i_svd1 _ _ _ HI); eassumption.
-      + pose proof (F2 x Hx) as Hl. apply memz_In in Hl. rewrite Hl.
-        rewrite (Hint x (F1 x (F2 x Hx))), Ex. reflexivity.
-    - intros x NR. rewrite rm_list_svd. destruct (memz x l) eqn:Ml.
-      + exfalso. apply NR. exists D. split; [apply in_or_app; right; now left|]. apply F1. now apply memz_In.
-      + apply (i_svd2 _ _ _ HI). intros R. apply NR. now apply rem_below_mono.
-    - intros x. rewrite rm_list_states. destruct (memz x l); [now left|exact (i_st1 _ _ _ HI x)].
-    - intros D' x Hi Hx. rewrite rm_list_states. apply in_app_single in Hi. destruct Hi as [Hi|[= ->]].
-      + rewrite (i_st2 _ _ _ HI D' x Hi Hx). now destruct (memz x l).
-      + apply F2, memz_In in Hx. now rewrite Hx.
-    - intros x NR. rewrite rm_list_states. destruct (memz x l) eqn:Ml.
-      + exfalso. apply NR. exists D. split; [apply in_or_app; right; now left|]. apply F1. now apply memz_In.
-      + apply (i_st3 _ _ _ HI). intros R. apply NR. now apply rem_below_mono.
-    - intros x. rewrite rm_list_states, rm_list_descrs. destruct (memz x l); [congruence|]. apply (i_st4 _ _ _ HI).
-    - intros D' x s Hi Hx Ex. rewrite rm_list_svs. apply in_app_single in Hi. destruct Hi as [Hi|[= ->]].
-      + rewrite (i_st2 _ _ _ HI D' x Hi Hx). destruct (memz x l); eapply (i_svs1 _ _ _ HI); eassumption.
-      + pose proof (F2 x Hx) as Hl. pose proof (NRl x Hl) as NR. apply memz_In in Hl. rewrite Hl.
-        rewrite (i_st3 _ _ _ HI x NR), Ex. reflexivity.
-    - intros x NR. rewrite rm_list_svs. destruct (memz x l) eqn:Ml.
-      + exfalso. apply NR. exists D. split; [apply in_or_app; right; now left|]. apply F1. now apply memz_In.
-      + apply (i_svs2 _ _ _ HI). intros R. apply NR. now apply rem_below_mono.
-    - intros x d0 Ex En. rewrite rm_list_svd. rewrite rm_list_descrs in En.
-      destruct (memz x l) eqn:Ml.
-      + destruct (descrs mc x) as [dc|] eqn:Ec; [|now apply (i_svd3 _ _ _ HI)].
-        apply memz_In, F1 in Ml. rewrite (Hint x Ml), Ex in Ec. now injection Ec as <-.
-      + now apply (i_svd3 _ _ _ HI).
+    - intros x NR. rewrite rem_below_none in NR. rewrite rm_list_svd. fold l.
+      assert (Ml : memz x l = false) by (apply memz_false; intros Hx; apply NR; right; now apply F1).
+      rewrite Ml. apply (i_svd2 _ _ _ HI). tauto.
+    - intros x d0 Ex En. rewrite rm_list_svd. rewrite rm_list_descrs in En. fold l in En |- *.
+      destruct (memz x l) eqn:Ml; [|now apply (i_svd3 _ _ _ HI)].
+      destruct (descrs mc x) as [dc|] eqn:Ecx; [|now apply (i_svd3 _ _ _ HI)].
+      apply memz_In in Ml. pose proof (F3 x Ml) as Rx.
+      pose proof (i_d _ _ _ HI x) as S. unfold dspec in S. rewrite Ex in S.
+      assert (Mb : memz x b = false).
+      { destruct (memz x b) eqn:Mb; [|reflexivity]. exfalso. exact (proj1 (i_b1 _ _ _ HI x Mb) Rx). }
+      rewrite Mb in S.
+      destruct (alist_get L x) as [[dx|]|] eqn:G.
+      * exfalso. apply L_in in G. exact (Hnc_h x dx G Rx).
+      * destruct S as [S1 S2]. destruct (rem_below_dec done x) as [R|R]; [rewrite (S1 R) in Ecx; discriminate|].
+        rewrite (S2 R) in Ecx. now injection Ecx as <-.
+      * destruct S as [S1 S2]. destruct (rem_below_dec done x) as [R|R]; [rewrite (S1 R) in Ecx; discriminate|].
+        rewrite (S2 R) in Ecx. now injection Ecx as <-.
+    - intros x. rewrite rm_list_states. fold l. destruct (memz x l); [now left|exact (i_st1 _ _ _ HI x)].
+    - intros x R. apply rem_below_none in R. rewrite rm_list_states. fold l. destruct (memz x l) eqn:Ml; [reflexivity|].
+      destruct R as [R|B]; [now apply (i_stR _ _ _ HI)|].
+      destruct (states mc x) eqn:Es; [|reflexivity]. exfalso. apply (i_st4 _ _ _ HI x); [congruence|now apply Gone].
+    - intros x NR. rewrite rem_below_none in NR. rewrite rm_list_states. fold l.
+      assert (Ml : memz x l = false) by (apply memz_false; intros Hx; apply NR; right; now apply F1).
+      rewrite Ml. apply (i_st3 _ _ _ HI). tauto.
+    - intros x. rewrite rm_list_states, rm_list_descrs. fold l. destruct (memz x l); [congruence|]. apply (i_st4 _ _ _ HI).
+    - intros x s R Es. apply rem_below_none in R. rewrite rm_list_svs. fold l.
+      destruct (rem_below_dec done x) as [R0|R0].
+      + rewrite (i_stR _ _ _ HI x R0). destruct (memz x l); now apply (i_svsR _ _ _ HI).
+      + destruct R as [R|B]; [contradiction|]. rewrite (i_st3 _ _ _ HI x R0), Es.
+        destruct (memz x l) eqn:Ml; [reflexivity|]. exfalso.
+        apply (i_st4 _ _ _ HI x); [rewrite (i_st3 _ _ _ HI x R0); congruence|now apply Gone].
+    - intros x NR. rewrite rem_below_none in NR. rewrite rm_list_svs. fold l.
+      assert (Ml : memz x l = false) by (apply memz_false; intros Hx; apply NR; right; now apply F1).
+      rewrite Ml. apply (i_svs2 _ _ _ HI). tauto.
   Qed.
 
-  (* every add / remove of a child of an existing, unremoved non-item handle has bumped it *)
+  (* every add / remove of a child of an existing handle that is neither removed nor updated has bumped it *)
   Definition B2 (done : list (H * option descr)) (b : list H) : Prop :=
-    forall h d0, trig done h -> alist_get L h = None -> descrs m h = Some d0 -> ~ rem_below done h -> memz h b = true.
+    forall h d0, trig done h -> descrs m h = Some d0 -> ~ Rm h -> (forall d, ~ In (h, Some d) L) -> memz h b = true.
 
-  Lemma trig_app done e h : trig (done ++ [e]) h -> trig done h \/ trig_item e h.
+  Lemma plain_lists p : (forall d, ~ In (p, Some d) L) -> memz p cr = false /\ memz p up = false.
   Proof.
-    intros (x & Hi & T). apply in_app_single in Hi. destruct Hi as [Hi| ->]; [left; now exists x|now right].
+    intros G. split.
+    - destruct (memz p cr) eqn:E; [|reflexivity]. apply Hcr in E. destruct E as (d & Hi & _). now apply G in Hi.
+    - destruct (memz p up) eqn:E; [|reflexivity]. apply Hup in E. destruct E as (d & Hi & _). now apply G in Hi.
+  Qed.
+  Lemma not_de p : ~ Rm p -> memz p de = false.
+  Proof. intros NR. destruct (memz p de) eqn:E; [|reflexivity]. now apply Hde in E. Qed.
+  Lemma up_false_no_upd p : memz p up = false -> no_upd p.
+  Proof.
+    intros U d Hi. destruct (descrs m p) eqn:E; [|reflexivity]. exfalso.
+    assert (T : memz p up = true) by (apply Hup; exists d; split; [exact Hi|congruence]). congruence.
   Qed.
 
-  Lemma not_item_lists p : alist_get L p = None -> memz p cr = false /\ memz p up = false /\ memz p de = false.
+  (* an existing, plain (no item), unremoved handle is present with its original or bumped descriptor *)
+  Lemma plain_present done mc b p d0 : (forall e, In e done -> In e L) -> Inv1 done mc b ->
+    descrs m p = Some d0 -> ~ Rm p -> (forall d, ~ In (p, Some d) L) ->
+    descrs mc p = Some (if memz p b then bumpd d0 else d0).
   Proof.
-    intros G. repeat split.
-    - destruct (memz p cr) eqn:E; [|reflexivity]. apply Hcr in E. destruct E as (d & Hi & _). apply L_get in Hi. congruence.
-    - destruct (memz p up) eqn:E; [|reflexivity]. apply Hup in E. destruct E as (d & Hi & _). apply L_get in Hi. congruence.
-    - destruct (memz p de) eqn:E; [|reflexivity]. apply Hde in E. destruct E as (Hi & _). apply L_get in Hi. congruence.
+    intros Hd HI Eo NRm G. pose proof (i_d _ _ _ HI p) as S. unfold dspec in S. rewrite Eo in S.
+    assert (NR : ~ rem_below done p) by (intros R; apply NRm; eapply rem_below_Rm; eassumption).
+    destruct (alist_get L p) as [[d|]|] eqn:Gp; [apply L_in in Gp; now apply G in Gp| |]; now apply S.
   Qed.
 
   Lemma inv1_step done rest e mc b : L = done ++ e :: rest -> Inv1 done mc b -> B2 done b ->
@@ -1106,105 +1278,95 @@ Section DescrFold.
     B2 (done ++ [e]) (snd (pi_m cr up de (mc, b) e)).
   Proof.
     intros HL HI HB. pose proof (e_in _ _ _ HL) as He. pose proof (e_not_done _ _ _ HL) as Hp.
-    assert (Hd' : forall x, In x (done ++ [e]) -> In x L).
-    { intros x Hx. apply in_app_single in Hx. destruct Hx as [Hx| ->]; [eapply done_in; eassumption|exact He]. }
+    pose proof (done_in _ _ _ HL) as Hd. pose proof (done'_in _ _ _ HL) as Hd'.
+    assert (HBmono : forall x d0, trig done x -> descrs m x = Some d0 -> ~ Rm x -> (forall d, ~ In (x, Some d) L) -> memz x b = true)
+      by exact HB.
     destruct e as [h [d|]]; cbn [fst] in Hp.
     - (* create / update *)
       pose proof (L_get _ _ He) as Ge.
       assert (Ec : descrs mc h = descrs m h).
-      { pose proof (i_d _ _ _ HI h) as S. unfold dspec in S. now rewrite Ge, Hp in S. }
+      { pose proof (i_d _ _ _ HI h) as S. unfold dspec in S. rewrite Ge, Hp in S. now destruct (descrs m h). }
       unfold pi_m. cbn [fst snd]. rewrite Ec. destruct (descrs m h) as [o|] eqn:Eo.
       + (* update *)
         cbn [fst snd]. split; [eapply inv1_update; [exact HL|congruence|exact HI]|].
-        intros x d0 T G Ex NR. rewrite memz_cons. apply trig_app in T. destruct T as [T|T].
-        * rewrite (HB x d0 T G Ex); [apply orb_true_r|]. intros R. apply NR. now apply rem_below_mono.
+        intros x d0 T Ex NR G. rewrite memz_cons. apply trig_app in T. destruct T as [T|T].
+        * rewrite (HB x d0 T Ex NR G). apply orb_true_r.
         * unfold trig_item in T. cbn [fst snd] in T. destruct T as [T _]. congruence.
       + (* create *)
         pose proof (inv1_create done rest h d mc b HL Eo HI) as HI1.
-        assert (HBmono : forall x d0, trig done x -> alist_get L x = None -> descrs m x = Some d0 ->
-                                      ~ rem_below (done ++ [(h, Some d)]) x -> memz x b = true).
-        { intros x d0 T G Ex NR. apply (HB x d0 T G Ex). intros R. apply NR. now apply rem_below_mono. }
+        assert (Plain : Inv1 (done ++ [(h, Some d)]) (set_descr mc h (Some d)) b /\
+                        (forall p, d_parent d = Some p -> memz p b = true \/ descrs (set_descr mc h (Some d)) p = None \/ (exists d', In (p, Some d') L) ->
+                         B2 (done ++ [(h, Some d)]) b)).
+        { split; [exact HI1|]. intros p P Why x d0 T Ex NR G. apply trig_app in T. destruct T as [T|T]; [eauto|].
+          unfold trig_item in T. cbn [fst snd] in T. destruct T as [_ T]. rewrite P in T. injection T as <-.
+          destruct Why as [Mb|[En|(d' & Hi)]]; [exact Mb| |now apply G in Hi].
+          rewrite (plain_present _ _ _ p d0 Hd' HI1 Ex NR G) in En. discriminate. }
+        destruct Plain as [_ PlainB].
         destruct (d_parent d) as [p|] eqn:P.
         * unfold mb_bump. destruct (memz p cr || memz p up || memz p b) eqn:Guard.
-          -- cbn [fst snd]. split; [exact HI1|]. intros x d0 T G Ex NR. apply trig_app in T. destruct T as [T|T]; [eauto|].
-             unfold trig_item in T. cbn [fst snd] in T. destruct T as [_ T]. rewrite P in T. injection T as <-.
-             destruct (not_item_lists p G) as (C1 & C2 & _). now rewrite C1, C2 in Guard.
+          -- cbn [fst snd]. split; [exact HI1|]. 
+             destruct (memz p b) eqn:Mb; [apply (PlainB p eq_refl); now left|].
+             apply (PlainB p eq_refl). right. right. rewrite orb_false_r in Guard. apply orb_true_iff in Guard.
+             destruct Guard as [U|U]; [apply Hcr in U|apply Hup in U]; destruct U as (d' & Hi & _); now exists d'.
           -- destruct (descrs (set_descr mc h (Some d)) p) as [dp|] eqn:Ep.
              ++ cbn [fst snd].
-                assert (Gp : alist_get L p = None).
-                { destruct (alist_get L p) as [[d'|]|] eqn:Gp; [| |reflexivity]; exfalso; apply L_in in Gp.
-                  - destruct (descrs m p) as [op|] eqn:Eop.
-                    + assert (U : memz p up = true) by (apply Hup; exists d'; split; [assumption|congruence]).
-                      rewrite U, orb_true_r in Guard. discriminate.
-                    + assert (U : memz p cr = true) by (apply Hcr; exists d'; split; assumption).
-                      rewrite U in Guard. discriminate.
-                  - exact (Sadd p h d p Gp He Eo P (below_refl _ _)). }
-                assert (Mb : memz p b = false) by (destruct (memz p b); [now rewrite !orb_true_r in Guard|reflexivity]).
-                assert (Tp : trig (done ++ [(h, Some d)]) p).
-                { exists (h, Some d). split; [apply in_or_app; right; now left|]. unfold trig_item. cbn [fst snd]. now split. }
+                apply orb_false_iff in Guard. destruct Guard as [Guard Mb]. apply orb_false_iff in Guard. destruct Guard as [U1 U].
+                assert (Tp : trig2 (done ++ [(h, Some d)]) p).
+                { split; [exists (h, Some d); split; [apply in_or_app; right; now left|]; unfold trig_item; cbn [fst snd]; now split|].
+                  intros Epn. exfalso. rewrite set_descr_descrs in Ep. destruct (Z.eqb_spec h p) as [Ehp|_].
+                  - subst p. assert (T : memz h cr = true) by (apply Hcr; exists d; now split). congruence.
+                  - pose proof (i_d _ _ _ HI p) as Sp. unfold dspec in Sp. rewrite Epn in Sp.
+                    destruct (alist_get L p) as [[d'|]|] eqn:Gp; [|congruence|congruence].
+                    apply L_in in Gp. assert (T : memz p cr = true) by (apply Hcr; exists d'; now split).
+                    congruence. }
                 split.
-                ** apply (inv1_bump _ p dp _ _ HI1 Gp Mb Ep Tp); [|exact Hd'].
-                   intros D HD. exact (Sadd D h d p HD He Eo P).
-                ** intros x d0 T G Ex NR. rewrite memz_cons. destruct (Z.eqb_spec x p) as [|Hne]; [reflexivity|].
+                ** exact (inv1_bump _ p dp _ _ HI1 Hd' Ep Mb (Hnc_p h d p He P) (up_false_no_upd p U) Tp).
+                ** intros x d0 T Ex NR G. rewrite memz_cons. destruct (Z.eqb_spec x p) as [|Hne]; [reflexivity|].
                    apply trig_app in T. destruct T as [T|T]; [eauto|].
                    unfold trig_item in T. cbn [fst snd] in T. destruct T as [_ T]. congruence.
-             ++ cbn [fst snd]. split; [exact HI1|]. intros x d0 T G Ex NR. apply trig_app in T. destruct T as [T|T]; [eauto|].
-                unfold trig_item in T. cbn [fst snd] in T. destruct T as [_ T]. rewrite P in T. injection T as <-.
-                exfalso. pose proof (i_d _ _ _ HI1 p) as S. unfold dspec in S. rewrite G, Ex in S.
-                destruct S as [_ S]. exact (S NR Ep).
-        * cbn [fst snd]. split; [exact HI1|]. intros x d0 T G Ex NR. apply trig_app in T. destruct T as [T|T]; [eauto|].
+             ++ cbn [fst snd]. split; [exact HI1|]. apply (PlainB p eq_refl). right. now left.
+        * cbn [fst snd]. split; [exact HI1|]. intros x d0 T Ex NR G. apply trig_app in T. destruct T as [T|T]; [eauto|].
           unfold trig_item in T. cbn [fst snd] in T. destruct T as [_ T]. congruence.
     - (* delete *)
-      destruct (inv1_delete done rest h mc b HL HI) as (ED & F1 & F2 & HI1).
-      pose proof (HLi _ _ He) as Ok. unfold ditem_ok in Ok.
-      destruct (descrs m h) as [o|] eqn:Eo; [|contradiction].
-      unfold pi_m. cbn [fst snd]. rewrite ED.
-      assert (HBmono : forall x d0, trig done x -> alist_get L x = None -> descrs m x = Some d0 ->
-                                    ~ rem_below (done ++ [(h, None)]) x -> memz x b = true).
-      { intros x d0 T G Ex NR. apply (HB x d0 T G Ex). intros R. apply NR. now apply rem_below_mono. }
-      destruct (d_parent o) as [p|] eqn:P.
-      + destruct (Spar h o p He Eo P) as [Epo Safe0].
-        unfold mb_bump. destruct (memz p de || memz p up || memz p b) eqn:Guard.
-        * cbn [fst snd]. split; [exact HI1|]. intros x d0 T G Ex NR. apply trig_app in T. destruct T as [T|T]; [eauto|].
+      unfold pi_m. cbn [fst snd]. destruct (descrs mc h) as [o|] eqn:Ec.
+      + destruct (inv1_delete done rest h o mc b HL HI Ec) as (Eo & F1 & F2 & HI1).
+        set (m1 := fold_left rm_one (subtree mc h) mc) in *.
+        assert (PlainB : forall p, d_parent o = Some p -> memz p b = true \/ descrs m1 p = None \/ Rm p \/ (exists d', In (p, Some d') L) ->
+                         B2 (done ++ [(h, None)]) b).
+        { intros p P Why x d0 T Ex NR G. apply trig_app in T. destruct T as [T|T]; [eauto|].
           unfold trig_item in T. cbn [fst snd] in T. destruct T as (dc & T1 & T2). rewrite Eo in T1. injection T1 as <-.
           rewrite P in T2. injection T2 as <-.
-          destruct (not_item_lists p G) as (_ & C2 & C3). now rewrite C2, C3 in Guard.
-        * destruct (descrs (fold_left rm_one (subtree mc h) mc) p) as [dp|] eqn:Ep.
-          -- cbn [fst snd].
-             assert (Gp : alist_get L p = None).
-             { destruct (alist_get L p) as [[d'|]|] eqn:Gp; [| |reflexivity]; exfalso; apply L_in in Gp.
-               - assert (U : memz p up = true) by (apply Hup; exists d'; split; assumption).
-                 rewrite U, orb_true_r in Guard. discriminate.
-               - assert (U : memz p de = true) by (apply Hde; split; assumption).
-                 rewrite U in Guard. discriminate. }
-             assert (Mb : memz p b = false) by (destruct (memz p b); [now rewrite !orb_true_r in Guard|reflexivity]).
-             assert (Tp : trig (done ++ [(h, None)]) p).
-             { exists (h, None). split; [apply in_or_app; right; now left|]. unfold trig_item. cbn [fst snd]. now exists o. }
-             split.
-             ++ apply (inv1_bump _ p dp _ _ HI1 Gp Mb Ep Tp); [|exact Hd'].
-                intros D HD B. destruct (Z.eq_dec D h) as [->|Hne]; [exact (Safe0 B)|].
-                apply (Sdel D h HD He); [congruence|]. eapply below_step; eassumption.
-             ++ intros x d0 T G Ex NR. rewrite memz_cons. destruct (Z.eqb_spec x p) as [|Hne]; [reflexivity|].
-                apply trig_app in T. destruct T as [T|T]; [eauto|].
-                unfold trig_item in T. cbn [fst snd] in T. destruct T as (dc & T1 & T2). congruence.
-          -- cbn [fst snd]. split; [exact HI1|]. intros x d0 T G Ex NR. apply trig_app in T. destruct T as [T|T]; [eauto|].
-             unfold trig_item in T. cbn [fst snd] in T. destruct T as (dc & T1 & T2). rewrite Eo in T1. injection T1 as <-.
-             rewrite P in T2. injection T2 as <-.
-             exfalso. pose proof (i_d _ _ _ HI1 p) as S. unfold dspec in S. rewrite G, Ex in S.
-             destruct S as [_ S]. exact (S NR Ep).
-      + cbn [fst snd]. split; [exact HI1|]. intros x d0 T G Ex NR. apply trig_app in T. destruct T as [T|T]; [eauto|].
-        unfold trig_item in T. cbn [fst snd] in T. destruct T as (dc & T1 & T2). congruence.
-  Qed.
-
-  Lemma inv1_fold rest : forall done mc b, L = done ++ rest -> Inv1 done mc b -> B2 done b ->
-    Inv1 L (fst (fold_left (pi_m cr up de) rest (mc, b))) (snd (fold_left (pi_m cr up de) rest (mc, b))) /\
-    B2 L (snd (fold_left (pi_m cr up de) rest (mc, b))).
-  Proof.
-    induction rest as [|e r IH]; intros done mc b HL HI HB; cbn [fold_left].
-    - rewrite app_nil_r in HL. subst done. now split.
-    - destruct (inv1_step done r e mc b HL HI HB) as [HI' HB'].
-      destruct (pi_m cr up de (mc, b) e) as [mc' b'] eqn:E. cbn [fst snd] in *.
-      apply (IH (done ++ [e])); [now rewrite <- app_assoc|assumption|assumption].
+          destruct Why as [Mb|[En|[R|(d' & Hi)]]]; [exact Mb| |contradiction|now apply G in Hi].
+          rewrite (plain_present _ _ _ p d0 Hd' HI1 Ex NR G) in En. discriminate. }
+        destruct (d_parent o) as [p|] eqn:P.
+        * unfold mb_bump. destruct (memz p de || memz p up || memz p b) eqn:Guard.
+          -- cbn [fst snd]. split; [exact HI1|].
+             destruct (memz p b) eqn:Mb; [apply (PlainB p eq_refl); now left|].
+             apply (PlainB p eq_refl). right. right. rewrite orb_false_r in Guard. apply orb_true_iff in Guard.
+             destruct Guard as [U|U]; [left; now apply Hde|right; apply Hup in U; destruct U as (d' & Hi & _); now exists d'].
+          -- destruct (descrs m1 p) as [dp|] eqn:Ep.
+             ++ cbn [fst snd].
+                apply orb_false_iff in Guard. destruct Guard as [Guard Mb]. apply orb_false_iff in Guard. destruct Guard as [U1 U].
+                assert (NRp : ~ Rm p) by (intros R; apply Hde in R; congruence).
+                assert (Tp : trig2 (done ++ [(h, None)]) p).
+                { split; [exists (h, None); split; [apply in_or_app; right; now left|]; unfold trig_item; cbn [fst snd]; now exists o|].
+                  intros _. exists h, o. split; [apply in_or_app; right; now left|now split]. }
+                split.
+                ** exact (inv1_bump _ p dp _ _ HI1 Hd' Ep Mb NRp (up_false_no_upd p U) Tp).
+                ** intros x d0 T Ex NR G. rewrite memz_cons. destruct (Z.eqb_spec x p) as [|Hne]; [reflexivity|].
+                   apply trig_app in T. destruct T as [T|T]; [eauto|].
+                   unfold trig_item in T. cbn [fst snd] in T. destruct T as (dc & T1 & T2). congruence.
+             ++ cbn [fst snd]. split; [exact HI1|]. apply (PlainB p eq_refl). right. now left.
+        * cbn [fst snd]. split; [exact HI1|]. intros x d0 T Ex NR G. apply trig_app in T. destruct T as [T|T]; [eauto|].
+          unfold trig_item in T. cbn [fst snd] in T. destruct T as (dc & T1 & T2). congruence.
+      + (* already gone with an ancestor *)
+        destruct (inv1_skip done rest h mc b HL HI Ec) as (RD & Iff & HI1). cbn [fst snd]. split; [exact HI1|].
+        intros x d0 T Ex NR G. apply trig_app in T. destruct T as [T|T]; [eauto|]. exfalso.
+        unfold trig_item in T. cbn [fst snd] in T. destruct T as (dc & T1 & T2).
+        destruct RD as (D2 & Hi & B). apply NR. apply (below_Rm D2); [now apply Hd|].
+        inversion B as [|? d' p' ? E' P' B']; subst.
+        * rewrite (pd_in _ _ _ Hi) in Hp. discriminate.
+        * rewrite T1 in E'. injection E' as <-. rewrite T2 in P'. now injection P' as <-.
   Qed.
 
   Lemma inv1_init : Inv1 [] (bump_ver m) [] /\ B2 [] [].
@@ -1212,28 +1374,27 @@ Section DescrFold.
     split.
     - constructor; cbn [bump_ver descrs states sv_d sv_s ddom].
       + intros h. unfold dspec. cbn [pd map memz existsb descrs bump_ver].
-        destruct (alist_get L h) as [[d|]|]; try reflexivity.
-        destruct (descrs m h); [|reflexivity]. split; [now right|discriminate].
-      + intros D h [].
+        destruct (alist_get L h) as [[d|]|]; destruct (descrs m h); try reflexivity;
+          (split; [intros (D & [] & _)|reflexivity]).
+      + intros h [=].
       + intros h [=].
       + exact Hdom.
       + split; [apply incl_refl|lia].
-      + intros D h d0 [].
-      + reflexivity.
-      + intros h. now right.
-      + intros D h [].
-      + reflexivity.
-      + exact Hsd.
-      + intros D h s [].
       + reflexivity.
       + intros h d0 E1 E2. congruence.
+      + intros h. now right.
+      + intros h (D & [] & _).
+      + reflexivity.
+      + exact Hsd.
+      + intros h s (D & [] & _).
+      + reflexivity.
     - intros h d0 (e & [] & _).
   Qed.
 
   (* ------------------------------------------------ the pending single-state items *)
   Definition t4d (b : list H) (h : H) : Prop :=
     (exists d, In (h, Some d) L /\ d_kind d <> K_CTX) \/
-    (alist_get L h = None /\ memz h b = true /\ exists d0, descrs m h = Some d0 /\ d_kind d0 <> K_CTX).
+    ((forall d, ~ In (h, Some d) L) /\ memz h b = true /\ exists d0, descrs m h = Some d0 /\ d_kind d0 <> K_CTX).
 
   Record Inv2m (b : list H) (ts : list (H * state)) : Prop := {
     j_nd : NoDup (map fst ts);
@@ -1273,50 +1434,33 @@ Section DescrFold.
         rewrite (K2 o Es). discriminate.
   Qed.
 
-  Lemma safe_not_removed done p : (forall x, In x done -> In x L) -> (forall D, In (D, None) L -> ~ below m p D) -> ~ rem_below done p.
-  Proof. intros Hd Safe (D & Hi & B). exact (Safe D (Hd _ Hi) B). Qed.
-
-  Lemma nonitem_current done mc b p dp : Inv1 done mc b -> alist_get L p = None -> memz p b = false ->
-    descrs mc p = Some dp -> descrs m p = Some dp.
+  Lemma bump_t4 done m1 b p dp : Inv1 done m1 b -> (forall e, In e done -> In e L) ->
+    descrs m1 p = Some dp -> memz p b = false -> ~ Rm p -> no_upd p ->
+    (d_kind dp <> K_CTX -> t4d (p :: b) p) /\
+    (forall d0, descrs m p = Some d0 -> d_kind d0 <> K_CTX -> d_kind dp <> K_CTX) /\
+    (forall o, states m p = Some o -> states m1 p = Some o).
   Proof.
-    intros HI Gp Mb Ep. pose proof (i_d _ _ _ HI p) as S. unfold dspec in S. rewrite Gp in S.
-    destruct (descrs m p) as [d0|]; [|congruence]. destruct S as [[S|S] _]; [congruence|].
-    rewrite Mb in S. congruence.
-  Qed.
-
-  Lemma bump_facts_create done rest h d p : L = done ++ (h, Some d) :: rest -> descrs m h = None -> d_parent d = Some p ->
-    forall b, memz p cr || memz p up || memz p b = false ->
-    alist_get L p = None /\ memz p b = false /\ p <> h /\ (forall D, In (D, None) L -> ~ below m p D).
-  Proof.
-    intros HL Eo P b Guard. pose proof (e_in _ _ _ HL) as He.
-    assert (Gp : alist_get L p = None).
-    { destruct (alist_get L p) as [[d'|]|] eqn:Gp; [| |reflexivity]; exfalso; apply L_in in Gp.
-      - destruct (descrs m p) as [op|] eqn:Eop.
-        + assert (U : memz p up = true) by (apply Hup; exists d'; split; [assumption|congruence]).
-          rewrite U, orb_true_r in Guard. discriminate.
-        + assert (U : memz p cr = true) by (apply Hcr; exists d'; split; assumption).
-          rewrite U in Guard. discriminate.
-      - exact (Sadd p h d p Gp He Eo P (below_refl _ _)). }
-    split; [exact Gp|]. split; [destruct (memz p b); [now rewrite !orb_true_r in Guard|reflexivity]|]. split.
-    - intros ->. apply L_get in He. congruence.
-    - intros D HD. exact (Sadd D h d p HD He Eo P).
-  Qed.
-
-  Lemma bump_facts_delete done rest h o p : L = done ++ (h, None) :: rest -> descrs m h = Some o -> d_parent o = Some p ->
-    forall b, memz p de || memz p up || memz p b = false ->
-    alist_get L p = None /\ memz p b = false /\ (forall D, In (D, None) L -> ~ below m p D).
-  Proof.
-    intros HL Eo P b Guard. pose proof (e_in _ _ _ HL) as He.
-    destruct (Spar h o p He Eo P) as [Epo Safe0].
-    assert (Gp : alist_get L p = None).
-    { destruct (alist_get L p) as [[d'|]|] eqn:Gp; [| |reflexivity]; exfalso; apply L_in in Gp.
-      - assert (U : memz p up = true) by (apply Hup; exists d'; split; assumption).
-        rewrite U, orb_true_r in Guard. discriminate.
-      - assert (U : memz p de = true) by (apply Hde; split; assumption).
-        rewrite U in Guard. discriminate. }
-    split; [exact Gp|]. split; [destruct (memz p b); [now rewrite !orb_true_r in Guard|reflexivity]|].
-    intros D HD B. destruct (Z.eq_dec D h) as [->|Hne]; [exact (Safe0 B)|].
-    apply (Sdel D h HD He); [congruence|]. eapply below_step; eassumption.
+    intros HI Hd Ep Mb NRm Nu.
+    assert (NR : ~ rem_below done p) by (intros R; apply NRm; eapply rem_below_Rm; eassumption).
+    pose proof (i_d _ _ _ HI p) as S. unfold dspec in S. rewrite Ep, Mb in S.
+    destruct (alist_get L p) as [[d'|]|] eqn:G.
+    - apply L_in in G. pose proof (Nu d' G) as Eo. rewrite Eo in S.
+      destruct (pd done p); [|discriminate]. injection S as <-. split; [|split].
+      + intros Ek. left. exists dp. now split.
+      + intros d0 E. congruence.
+      + intros o Es. exfalso. apply (Hsd p); congruence.
+    - destruct (descrs m p) as [d0|] eqn:Eo; [|discriminate]. destruct S as [_ S]. specialize (S NR). injection S as <-.
+      split; [|split].
+      + intros Ek. right. split; [intros d Hi; apply L_get in Hi; congruence|]. split; [now rewrite memz_cons, Z.eqb_refl|].
+        exists dp. now split.
+      + intros d0 [= <-]. tauto.
+      + intros o Es. now rewrite (i_st3 _ _ _ HI p NR).
+    - destruct (descrs m p) as [d0|] eqn:Eo; [|discriminate]. destruct S as [_ S]. specialize (S NR). injection S as <-.
+      split; [|split].
+      + intros Ek. right. split; [intros d Hi; apply L_get in Hi; congruence|]. split; [now rewrite memz_cons, Z.eqb_refl|].
+        exists dp. now split.
+      + intros d0 [= <-]. tauto.
+      + intros o Es. now rewrite (i_st3 _ _ _ HI p NR).
   Qed.
 
   Lemma inv2_step done rest e mc b ts : L = done ++ e :: rest -> Inv1 done mc b -> B2 done b ->
@@ -1326,13 +1470,13 @@ Section DescrFold.
     T3c (descrs (fst (pi_m cr up de (mc, b) e))) (states (fst (pi_m cr up de (mc, b) e))) (pi_s cr up de mc b ts e).
   Proof.
     intros HL HI HB HJ H3 H3c. pose proof (e_in _ _ _ HL) as He. pose proof (e_not_done _ _ _ HL) as Hp.
-    pose proof (done_in _ _ _ HL) as Hd.
+    pose proof (done_in _ _ _ HL) as Hd. pose proof (done'_in _ _ _ HL) as Hd'.
     assert (Hst : forall x o, states mc x = Some o -> states m x = Some o).
     { intros x o E. destruct (i_st1 _ _ _ HI x) as [S|S]; congruence. }
     destruct e as [h [d|]]; cbn [fst] in Hp.
     - pose proof (L_get _ _ He) as Ge.
       assert (Ec : descrs mc h = descrs m h).
-      { pose proof (i_d _ _ _ HI h) as S. unfold dspec in S. now rewrite Ge, Hp in S. }
+      { pose proof (i_d _ _ _ HI h) as S. unfold dspec in S. rewrite Ge, Hp in S. now destruct (descrs m h). }
       pose proof (HLi _ _ He) as Ok. unfold ditem_ok in Ok.
       unfold pi_m, pi_s. cbn [fst snd]. rewrite Ec. destruct (descrs m h) as [o|] eqn:Eo.
       + (* update *)
@@ -1345,7 +1489,7 @@ Section DescrFold.
              right. split; [reflexivity|]. split.
              ++ intros d0 Ed Ekd. rewrite Eo in Ed. injection Ed as Ed. subst d0. congruence.
              ++ intros o' Es. rewrite (i_st3 _ _ _ HI h); [exact Es|].
-                intros (D & Hi & B). apply (Sup D h d (Hd _ Hi) He); [congruence|exact B].
+                intros R. exact (Hnc_h h d He (rem_below_Rm done h Hd R)).
         * apply (T3_set good (descrs mc) (states mc) ts h d H3 H3c).
           intros Ek. apply (H3c h o); [now rewrite Ec|congruence].
       + (* create *)
@@ -1353,7 +1497,7 @@ Section DescrFold.
         { intros Ek. split.
           - destruct (states mc h) eqn:Es; [|reflexivity]. exfalso. apply (i_st4 _ _ _ HI h); congruence.
           - destruct (alist_get ts h) eqn:Gt; [|reflexivity]. exfalso.
-            destruct (j_t4 _ _ HJ h) as [(d' & Hi & Ek')|(A & _)]; [congruence| |congruence].
+            destruct (j_t4 _ _ HJ h) as [(d' & Hi & Ek')|(A & _)]; [congruence| |now apply A in He].
             pose proof (nodup_fst_eq _ _ _ _ HLn Hi He) as Ed. injection Ed as ->. contradiction. }
         assert (Plain : Inv2m b (ucs_s (states mc) ts h (d_ver d) (d_kind d)) /\
                         T3 good (upd (descrs mc) h (Some d)) (states mc) (ucs_s (states mc) ts h (d_ver d) (d_kind d)) /\
@@ -1363,20 +1507,23 @@ Section DescrFold.
           intros Ek. left. exists d. now split. }
         destruct (d_parent d) as [p|] eqn:P; [|exact Plain].
         unfold mb_bump, ts_bump. destruct (memz p cr || memz p up || memz p b) eqn:Guard; [exact Plain|].
-        destruct (bump_facts_create done rest h d p HL Eo P b Guard) as (Gp & Mb & Hne & Safe).
+        apply orb_false_iff in Guard. destruct Guard as [Guard Mb]. apply orb_false_iff in Guard. destruct Guard as [U1 U].
+        assert (Hne : p <> h).
+        { intros ->. assert (T : memz h cr = true) by (apply Hcr; exists d; now split). congruence. }
         cbn [descrs set_descr]. rewrite upd_eq. destruct (Z.eqb_spec h p) as [|_]; [congruence|].
         destruct (descrs mc p) as [dp|] eqn:Ep; [|exact Plain].
-        pose proof (nonitem_current done mc b p dp HI Gp Mb Ep) as Eop.
-        cbn [fst snd states set_descr].
+        pose proof (inv1_create done rest h d mc b HL Eo HI) as HI1.
+        assert (Ep1 : descrs (set_descr mc h (Some d)) p = Some dp).
+        { rewrite set_descr_descrs. destruct (Z.eqb_spec h p); [congruence|exact Ep]. }
+        destruct (bump_t4 _ _ b p dp HI1 Hd' Ep1 Mb (Hnc_p h d p He P) (up_false_no_upd p U)) as (B4 & B5 & B6).
+        cbn [fst snd states set_descr] in *.
         assert (J1 : Inv2m (p :: b) (ucs_s (states mc) ts p (d_ver dp + 1) (d_kind dp))).
         { apply (inv2m_ucs b (p :: b) _ _ _ _ _ HJ).
           - intros y My. rewrite memz_cons, My. apply orb_true_r.
           - apply Hst.
-          - intros Ek. right. split; [exact Gp|]. split; [now rewrite memz_cons, Z.eqb_refl|]. exists dp. now split.
+          - exact B4.
           - intros y My. rewrite memz_cons in My. destruct (Z.eqb_spec y p) as [Eyp|]; [subst y|now left].
-            right. split; [reflexivity|]. split.
-            + intros d0 Ed. rewrite Eop in Ed. injection Ed as <-. tauto.
-            + intros o' Es. rewrite (i_st3 _ _ _ HI p); [exact Es|]. now apply safe_not_removed. }
+            right. split; [reflexivity|]. split; [exact B5|exact B6]. }
         destruct (T3_set good (descrs mc) (states mc) ts p (bumpd dp) H3 H3c) as [K3 K3c].
         { intros Ek. apply (H3c p dp Ep Ek). }
         cbn [bumpd d_ver d_kind] in K3, K3c.
@@ -1393,10 +1540,8 @@ Section DescrFold.
           -- eapply T3c_ext; [| |exact M3c]; [|reflexivity]. intros y. rewrite !set_descr_descrs, !upd_eq.
              destruct (Z.eqb_spec p y) as [Epy|]; [|reflexivity]. destruct (Z.eqb_spec h y); [congruence|reflexivity].
     - (* delete *)
-      destruct (inv1_delete done rest h mc b HL HI) as (ED & F1 & F2 & HI1).
-      pose proof (HLi _ _ He) as Ok. unfold ditem_ok in Ok.
-      destruct (descrs m h) as [o|] eqn:Eo; [|contradiction].
-      unfold pi_m, pi_s. cbn [fst snd]. rewrite ED.
+      unfold pi_m, pi_s. cbn [fst snd]. destruct (descrs mc h) as [o|] eqn:Ec; [|now split].
+      destruct (inv1_delete done rest h o mc b HL HI Ec) as (Eo & F1 & F2 & HI1).
       set (mc1 := fold_left rm_one (subtree mc h) mc) in *.
       assert (R3 : T3 good (descrs mc1) (states mc1) ts).
       { intros y dy Hg. unfold mc1. rewrite rm_list_descrs. destruct (memz y (subtree mc h)) eqn:Ml; [discriminate|].
@@ -1407,20 +1552,17 @@ Section DescrFold.
       assert (Plain : Inv2m b ts /\ T3 good (descrs mc1) (states mc1) ts /\ T3c (descrs mc1) (states mc1) ts) by (split; [exact HJ|split; assumption]).
       destruct (d_parent o) as [p|] eqn:P; [|exact Plain].
       unfold mb_bump, ts_bump. destruct (memz p de || memz p up || memz p b) eqn:Guard; [exact Plain|].
-      destruct (bump_facts_delete done rest h o p HL Eo P b Guard) as (Gp & Mb & Safe).
+      apply orb_false_iff in Guard. destruct Guard as [Guard Mb]. apply orb_false_iff in Guard. destruct Guard as [U1 U].
+      assert (NRp : ~ Rm p) by (intros R; apply Hde in R; congruence).
       destruct (descrs mc1 p) as [dp|] eqn:Ep; [|exact Plain].
-      pose proof (nonitem_current _ mc1 b p dp HI1 Gp Mb Ep) as Eop.
-      assert (Hd' : forall x, In x (done ++ [(h, None)]) -> In x L).
-      { intros x Hx. apply in_app_single in Hx. destruct Hx as [Hx| ->]; [now apply Hd|exact He]. }
+      destruct (bump_t4 _ _ b p dp HI1 Hd' Ep Mb NRp (up_false_no_upd p U)) as (B4 & B5 & B6).
       cbn [fst snd descrs states set_descr]. split.
       + apply (inv2m_ucs b (p :: b) _ _ _ _ _ HJ).
         * intros y My. rewrite memz_cons, My. apply orb_true_r.
         * intros o' E. destruct (i_st1 _ _ _ HI1 p) as [S|S]; congruence.
-        * intros Ek. right. split; [exact Gp|]. split; [now rewrite memz_cons, Z.eqb_refl|]. exists dp. now split.
+        * exact B4.
         * intros y My. rewrite memz_cons in My. destruct (Z.eqb_spec y p) as [Eyp|]; [subst y|now left].
-          right. split; [reflexivity|]. split.
-          -- intros d0 Ed. rewrite Eop in Ed. injection Ed as <-. tauto.
-          -- intros o' Es. rewrite (i_st3 _ _ _ HI1 p); [exact Es|]. now apply safe_not_removed.
+          right. split; [reflexivity|]. split; [exact B5|exact B6].
       + destruct (T3_set good (descrs mc1) (states mc1) ts p (bumpd dp) R3 R3c) as [K3 K3c].
         { intros Ek. apply (R3c p dp Ep Ek). }
         cbn [bumpd d_ver d_kind] in K3, K3c. split; assumption.
@@ -1431,19 +1573,19 @@ Section DescrFold.
 
   Record InvC (done : list (H * option descr)) (mc : mdib) : Prop := {
     c_sub : forall ch, cstates mc ch = None \/ cstates mc ch = cstates m ch;
-    c_rem : forall D x ch c, In (D, None) done -> In x (subtree m D) -> cstates m ch = Some c -> c_dh c = x ->
+    c_rem : forall ch c, cstates m ch = Some c -> rem_below done (c_dh c) ->
               cstates mc ch = None /\ sv_c mc ch = Some (c_ver c);
     c_keep : forall ch c, cstates m ch = Some c -> ~ rem_below done (c_dh c) ->
               cstates mc ch = Some c /\ sv_c mc ch = sv_c m ch;
     c_dom : incl (cdom m) (cdom mc)
   }.
 
-  Lemma invc_grow done k d mc mc' : cstates mc' = cstates mc -> sv_c mc' = sv_c mc -> cdom mc' = cdom mc ->
-    InvC done mc -> InvC (done ++ [(k, Some d)]) mc'.
+  Lemma invc_same done done' mc mc' : cstates mc' = cstates mc -> sv_c mc' = sv_c mc -> cdom mc' = cdom mc ->
+    (forall x, rem_below done' x <-> rem_below done x) -> InvC done mc -> InvC done' mc'.
   Proof.
-    intros E1 E2 E3 [S R K Dm]. constructor; rewrite ?E1, ?E2, ?E3; try assumption.
-    - intros D x ch c Hi. apply in_app_single in Hi. destruct Hi as [Hi|[=]]. now apply R.
-    - intros ch c Ec NR. apply K; [exact Ec|]. intros Rb. apply NR. now apply rem_below_mono.
+    intros E1 E2 E3 Iff [S R K Dm]. constructor; rewrite ?E1, ?E2, ?E3; try assumption.
+    - intros ch c Ec Rb. apply (R ch c Ec). now apply Iff.
+    - intros ch c Ec NR. apply (K ch c Ec). now rewrite <- Iff.
   Qed.
 
   Lemma mb_bump_cs skip p m0 b :
@@ -1454,90 +1596,80 @@ Section DescrFold.
   Lemma invc_step done rest e mc b : L = done ++ e :: rest -> Inv1 done mc b -> InvC done mc ->
     InvC (done ++ [e]) (fst (pi_m cr up de (mc, b) e)).
   Proof.
-    intros HL HI HC. pose proof (e_in _ _ _ HL) as He. pose proof (e_not_done _ _ _ HL) as Hp.
-    pose proof (done_in _ _ _ HL) as Hd.
-    destruct e as [h [d|]]; cbn [fst] in Hp.
+    intros HL HI HC. pose proof (e_in _ _ _ HL) as He. pose proof (done_in _ _ _ HL) as Hd.
+    destruct e as [h [d|]].
     - unfold pi_m. cbn [fst snd]. destruct (descrs mc h) as [o|].
-      + cbn [fst]. apply (invc_grow done h d mc); try reflexivity. exact HC.
+      + cbn [fst]. apply (invc_same done _ mc); try reflexivity; [intros x; apply rem_below_some|exact HC].
       + destruct (d_parent d) as [p|].
         * destruct (mb_bump_cs (memz p cr || memz p up) p (set_descr mc h (Some d)) b) as (E1 & E2 & E3).
-          apply (invc_grow done h d mc); assumption.
-        * cbn [fst]. apply (invc_grow done h d mc); try reflexivity. exact HC.
-    - destruct (inv1_delete done rest h mc b HL HI) as (ED & F1 & F2 & HI1).
-      pose proof (HLi _ _ He) as Ok. unfold ditem_ok in Ok. destruct (descrs m h) as [o|] eqn:Eo; [|contradiction].
-      set (l := subtree mc h) in *. set (m1 := fold_left rm_one l mc) in *.
-      destruct (rm_list_cs l mc) as (A & B & C). fold m1 in A, B, C.
-      assert (Core : InvC (done ++ [(h, None)]) m1).
-      { destruct HC as [S R K Dm]. constructor.
-        - intros ch. rewrite A. destruct (S ch) as [E|E]; rewrite E; [now left|].
-          destruct (cstates m ch) as [c|]; [|now left]. destruct (memz (c_dh c) l && memz ch (cdom mc)); [now left|now right].
-        - intros D x ch c Hi Hx Ec Ex. rewrite A, B. apply in_app_single in Hi. destruct Hi as [Hi|Hi].
-          + destruct (R D x ch c Hi Hx Ec Ex) as [R1 R2]. rewrite R1. now split.
-          + injection Hi as ->.
-            assert (NR : ~ rem_below done (c_dh c)).
-            { rewrite Ex. apply (unprocessed_not_removed done h x Hd He Hp). apply F1. now apply F2. }
-            destruct (K ch c Ec NR) as [K1 K2]. rewrite K1.
-            assert (M1 : memz (c_dh c) l = true) by (apply memz_In; rewrite Ex; now apply F2).
-            assert (M2 : memz ch (cdom mc) = true) by (apply memz_In, Dm, Hcdom; congruence).
-            rewrite M1, M2. now split.
-        - intros ch c Ec NR. rewrite A, B.
-          assert (NR0 : ~ rem_below done (c_dh c)) by (intros Rb; apply NR; now apply rem_below_mono).
-          destruct (K ch c Ec NR0) as [K1 K2]. rewrite K1.
-          assert (M1 : memz (c_dh c) l = false).
-          { apply memz_false. intros Hi. apply NR. exists h. split; [apply in_or_app; right; now left|now apply F1]. }
-          rewrite M1. now split.
-        - now rewrite C. }
-      unfold pi_m. cbn [fst snd]. rewrite ED. fold l. fold m1.
-      destruct (d_parent o) as [p|]; [|exact Core].
-      destruct (mb_bump_cs (memz p de || memz p up) p m1 b) as (E1 & E2 & E3).
-      destruct Core as [S R K Dm]. constructor; rewrite ?E1, ?E2, ?E3; assumption.
+          apply (invc_same done _ mc); try assumption. intros x; apply rem_below_some.
+        * cbn [fst]. apply (invc_same done _ mc); try reflexivity; [intros x; apply rem_below_some|exact HC].
+    - unfold pi_m. cbn [fst snd]. destruct (descrs mc h) as [o|] eqn:Ec.
+      + destruct (inv1_delete done rest h o mc b HL HI Ec) as (Eo & F1 & F2 & HI1).
+        set (l := subtree mc h) in *. set (m1 := fold_left rm_one l mc) in *.
+        destruct (rm_list_cs l mc) as (A & B & C). fold m1 in A, B, C.
+        assert (Core : InvC (done ++ [(h, None)]) m1).
+        { destruct HC as [S R K Dm]. constructor.
+          - intros ch. rewrite A. destruct (S ch) as [E|E]; rewrite E; [now left|].
+            destruct (cstates m ch) as [c|]; [|now left]. destruct (memz (c_dh c) l && memz ch (cdom mc)); [now left|now right].
+          - intros ch c Ecs Rb. rewrite A, B. apply rem_below_none in Rb.
+            destruct (rem_below_dec done (c_dh c)) as [R0|R0].
+            + destruct (R ch c Ecs R0) as [R1 R2]. rewrite R1. now split.
+            + destruct Rb as [Rb|Bx]; [contradiction|]. destruct (K ch c Ecs R0) as [K1 K2]. rewrite K1.
+              assert (M1 : memz (c_dh c) l = true).
+              { apply memz_In, F2; [exact Bx|]. pose proof (below_Rm h _ He Bx) as Rx.
+                destruct (Rm_below _ Rx) as [Ex _]. pose proof (i_d _ _ _ HI (c_dh c)) as Sx. unfold dspec in Sx.
+                destruct (descrs m (c_dh c)) as [d0|]; [|contradiction].
+                destruct (alist_get L (c_dh c)) as [[dx|]|] eqn:G;
+                  [exfalso; apply L_in in G; exact (Hnc_h _ dx G Rx)| |]; rewrite (proj2 Sx R0); discriminate. }
+              assert (M2 : memz ch (cdom mc) = true) by (apply memz_In, Dm, Hcdom; congruence).
+              rewrite M1, M2. now split.
+          - intros ch c Ecs NR. rewrite A, B. rewrite rem_below_none in NR.
+            destruct (K ch c Ecs) as [K1 K2]; [tauto|]. rewrite K1.
+            assert (M1 : memz (c_dh c) l = false) by (apply memz_false; intros Hi; apply NR; right; now apply F1).
+            rewrite M1. now split.
+          - now rewrite C. }
+        destruct (d_parent o) as [p|]; [|exact Core].
+        destruct (mb_bump_cs (memz p de || memz p up) p m1 b) as (E1 & E2 & E3).
+        apply (invc_same (done ++ [(h, None)]) _ m1); try assumption. tauto.
+      + destruct (inv1_skip done rest h mc b HL HI Ec) as (_ & Iff & _). cbn [fst].
+        apply (invc_same done _ mc); try reflexivity; assumption.
   Qed.
 
   Definition InvTC (tc : list (H * option cstate)) : Prop :=
-    NoDup (map fst tc) /\
-    forall ch, alist_get tc ch <> None -> exists c, cstates m ch = Some c /\ forall D, In (D, None) L -> ~ below m (c_dh c) D.
+    NoDup (map fst tc) /\ forall ch, alist_get tc ch <> None -> exists c, cstates m ch = Some c /\ ~ Rm (c_dh c).
 
   Lemma invtc_ucs mm t x dv k :
-    (forall ch c, cstates mm ch = Some c -> cstates m ch = Some c) ->
-    (forall D, In (D, None) L -> ~ below m x D) ->
+    (forall ch c, cstates mm ch = Some c -> cstates m ch = Some c) -> ~ Rm x ->
     InvTC (t_c t) -> InvTC (t_c (upd_corr_state mm t x dv k)).
   Proof.
     intros Hsub Safe [Hn HQ].
-    apply (ucs_tc_inv (fun ch => exists c, cstates m ch = Some c /\ forall D, In (D, None) L -> ~ below m (c_dh c) D)
-                      mm x dv k t Hn HQ).
+    apply (ucs_tc_inv (fun ch => exists c, cstates m ch = Some c /\ ~ Rm (c_dh c)) mm x dv k t Hn HQ).
     intros ch c Ec Ex. exists c. split; [now apply Hsub|]. now rewrite Ex.
   Qed.
 
   Lemma invtc_step done rest e mc t b : L = done ++ e :: rest -> Inv1 done mc b -> InvC done mc -> InvTC (t_c t) ->
     InvTC (t_c (snd (fst (process_item cr up de (mc, t, b) e)))).
   Proof.
-    intros HL HI HC HT. pose proof (e_in _ _ _ HL) as He. pose proof (e_not_done _ _ _ HL) as Hp.
-    pose proof (done_in _ _ _ HL) as Hd.
+    intros HL HI HC HT. pose proof (e_in _ _ _ HL) as He.
     assert (Hsub : forall ch c, cstates mc ch = Some c -> cstates m ch = Some c).
     { intros ch c E. destruct (c_sub _ _ HC ch) as [S|S]; congruence. }
-    destruct e as [h [d|]]; cbn [fst] in Hp.
-    - pose proof (L_get _ _ He) as Ge.
-      assert (Ec : descrs mc h = descrs m h).
-      { pose proof (i_d _ _ _ HI h) as S. unfold dspec in S. now rewrite Ge, Hp in S. }
-      unfold process_item. cbn [fst snd]. rewrite Ec. destruct (descrs m h) as [o|] eqn:Eo.
-      + cbn [fst snd]. apply invtc_ucs; [exact Hsub| |exact HT].
-        intros D HD. apply (Sup D h d HD He). congruence.
-      + assert (SafeH : forall D, In (D, None) L -> ~ below m h D).
-        { intros D HD B. apply (below_absent _ _ _ Eo) in B. subst D. pose proof (nodup_fst_eq _ _ _ _ HLn He HD). discriminate. }
-        destruct (d_parent d) as [p|] eqn:P; [|cbn [fst snd]; apply invtc_ucs; assumption].
+    destruct e as [h [d|]].
+    - pose proof (Hnc_h h d He) as SafeH.
+      unfold process_item. cbn [fst snd]. destruct (descrs mc h) as [o|] eqn:Eo.
+      + cbn [fst snd]. apply invtc_ucs; assumption.
+      + destruct (d_parent d) as [p|] eqn:P; [|cbn [fst snd]; apply invtc_ucs; assumption].
         destruct (memz p cr || memz p up || memz p b) eqn:Guard; [cbn [fst snd]; apply invtc_ucs; assumption|].
-        destruct (bump_facts_create done rest h d p HL Eo P b Guard) as (_ & _ & _ & SafeP).
         unfold bump_parent. destruct (descrs (set_descr mc h (Some d)) p) as [dp|]; cbn [fst snd].
-        * apply invtc_ucs; [exact Hsub|exact SafeH|]. apply invtc_ucs; assumption.
+        * apply invtc_ucs; [exact Hsub|exact SafeH|]. apply invtc_ucs; [exact Hsub|exact (Hnc_p h d p He P)|exact HT].
         * apply invtc_ucs; assumption.
-    - destruct (inv1_delete done rest h mc b HL HI) as (ED & F1 & F2 & HI1).
-      pose proof (HLi _ _ He) as Ok. unfold ditem_ok in Ok. destruct (descrs m h) as [o|] eqn:Eo; [|contradiction].
-      unfold process_item. cbn [fst snd]. rewrite ED.
+    - unfold process_item. cbn [fst snd]. destruct (descrs mc h) as [o|] eqn:Ec; [|exact HT].
       destruct (d_parent o) as [p|] eqn:P; [|exact HT].
       destruct (memz p de || memz p up || memz p b) eqn:Guard; [exact HT|].
-      destruct (bump_facts_delete done rest h o p HL Eo P b Guard) as (_ & _ & SafeP).
+      apply orb_false_iff in Guard. destruct Guard as [Guard _]. apply orb_false_iff in Guard. destruct Guard as [U1 _].
+      assert (NRp : ~ Rm p) by (intros R; apply Hde in R; congruence).
       unfold bump_parent. destruct (descrs (fold_left rm_one (subtree mc h) mc) p) as [dp|]; cbn [fst snd]; [|exact HT].
-      apply invtc_ucs; [|exact SafeP|exact HT].
+      apply invtc_ucs; [|exact NRp|exact HT].
       intros ch c. cbn [cstates set_descr]. rewrite (proj1 (rm_list_cs (subtree mc h) mc) ch).
       destruct (cstates mc ch) as [c0|] eqn:E0; [|discriminate].
       destruct (memz (c_dh c0) (subtree mc h) && memz ch (cdom mc)); [discriminate|]. intros [= <-]. now apply Hsub.
@@ -1601,7 +1733,7 @@ Section DescrFold.
         - apply pi_m_b_mono. eapply HB3; eassumption.
         - subst e. pose proof (e_in _ _ _ HL) as He. pose proof (e_not_done _ _ _ HL) as Hp. cbn [fst] in Hp.
           pose proof (i_d _ _ _ H1 h) as S. unfold dspec in S. rewrite (L_get _ _ He), Hp in S.
-          unfold pi_m. cbn [fst snd]. rewrite S. destruct (descrs m h); [|congruence]. cbn [snd].
+          unfold pi_m. cbn [fst snd]. destruct (descrs m h) as [o|]; [|congruence]. rewrite S. cbn [snd].
           now rewrite memz_cons, Z.eqb_refl. }
       destruct (process_item cr up de (mc, t, b) e) as [[mc' t'] b'] eqn:E. cbn [fst snd] in Emb, Ets, HT'.
       rewrite <- Emb in H1', H2', HJ', H3', H3c', HB3', HC'. cbn [fst snd] in *. rewrite <- Ets in HJ', H3', H3c'.
@@ -1613,65 +1745,11 @@ Section DescrFold.
       + split; [exact R1|]. split; [exact R2|]. split; [exact R3|]. intros y Hy. apply R4. rewrite Ets. now apply pi_s_keeps.
   Qed.
 
-  (* what holds when the loop is over *)
-  Lemma pd_all h x : In (h, x) L -> pd L h = true.
-  Proof. apply pd_in. Qed.
+  Definition plain (h : H) : Prop := forall d, ~ In (h, Some d) L.
 
-  Lemma trig_safe done h : (forall x, In x done -> In x L) -> trig done h -> forall D, In (D, None) L -> ~ below m h D.
-  Proof.
-    intros Hd (e & Hi & T) D HD B. apply Hd in Hi. destruct e as [c [d|]]; unfold trig_item in T; cbn [fst snd] in T.
-    - destruct T as [Ec Pc]. exact (Sadd D c d h HD Hi Ec Pc B).
-    - destruct T as (dc & Ec & Pc). destruct (Spar c dc h Hi Ec Pc) as [_ Safe0].
-      destruct (Z.eq_dec D c) as [->|Hne]; [exact (Safe0 B)|].
-      apply (Sdel D c HD Hi); [congruence|]. eapply below_step; eassumption.
-  Qed.
-
-  Section Final.
-    Variables (mc : mdib) (b : list H) (ts : list (H * state)).
-    Hypothesis HA : InvAll L mc b ts.
-
-    Lemma fin_item_some h d : In (h, Some d) L -> descrs mc h = Some d.
-    Proof.
-      intros Hi. pose proof (i_d _ _ _ (a_1 _ _ _ _ HA) h) as S. unfold dspec in S.
-      now rewrite (L_get _ _ Hi), (pd_all _ _ Hi) in S.
-    Qed.
-    Lemma fin_item_none h : In (h, None) L -> descrs mc h = None.
-    Proof.
-      intros Hi. pose proof (i_d _ _ _ (a_1 _ _ _ _ HA) h) as S. unfold dspec in S.
-      now rewrite (L_get _ _ Hi), (pd_all _ _ Hi) in S.
-    Qed.
-    Lemma fin_bumped_safe h : alist_get L h = None -> memz h b = true -> forall D, In (D, None) L -> ~ below m h D.
-    Proof.
-      intros G Mb. destruct (i_b1 _ _ _ (a_1 _ _ _ _ HA) h Mb) as [(d & Hi & _)|(_ & T)].
-      - apply L_get in Hi. congruence.
-      - apply (trig_safe L h); [tauto|exact T].
-    Qed.
-    Lemma fin_nonitem h d0 : alist_get L h = None -> descrs m h = Some d0 ->
-      (descrs mc h = None \/ descrs mc h = Some (if memz h b then bumpd d0 else d0)) /\
-      (~ rem_below L h -> descrs mc h <> None).
-    Proof.
-      intros G E. pose proof (i_d _ _ _ (a_1 _ _ _ _ HA) h) as S. unfold dspec in S. now rewrite G, E in S.
-    Qed.
-    Lemma fin_entry_descr h : alist_get ts h <> None -> descrs mc h <> None.
-    Proof.
-      intros Hy. destruct (j_t4 _ _ (a_2 _ _ _ _ HA) h Hy) as [(d & Hi & _)|(G & Mb & d0 & E & _)].
-      - rewrite (fin_item_some _ _ Hi). discriminate.
-      - apply (proj2 (fin_nonitem h d0 G E)). apply safe_not_removed; [tauto|]. now apply fin_bumped_safe.
-    Qed.
-    Lemma fin_entry_safe h : alist_get ts h <> None -> descrs m h <> None -> forall D, In (D, None) L -> ~ below m h D.
-    Proof.
-      intros Hy Eo D HD B. destruct (j_t4 _ _ (a_2 _ _ _ _ HA) h Hy) as [(d & Hi & _)|(G & Mb & _)].
-      - exact (Sup D h d HD Hi Eo B).
-      - exact (fin_bumped_safe h G Mb D HD B).
-    Qed.
-  End Final.
-
-  (* ------------------------------------------------ the committed MDIB *)
   Record commit_facts (ts0 : list (H * state)) (m' : mdib) : Prop := {
     cf_descr : forall h d0 d', descrs m h = Some d0 -> descrs m' h = Some d' ->
-      (In (h, Some d') L) \/
-      (alist_get L h = None /\ trig L h /\ d' = bumpd d0) \/
-      (alist_get L h = None /\ ~ trig L h /\ d' = d0);
+      (In (h, Some d') L) \/ (plain h /\ trig L h /\ d' = bumpd d0) \/ (plain h /\ ~ trig L h /\ d' = d0);
     cf_state_descr : forall h s, good h -> states m' h = Some s -> exists d, descrs m' h = Some d /\ s_dver s = d_ver d;
     cf_sd : forall h, states m' h <> None -> descrs m' h <> None;
     cf_dom : forall h, descrs m' h <> None -> In h (ddom m');
@@ -1680,19 +1758,20 @@ Section DescrFold.
       descrs m' x = None /\ states m' x = None /\
       (forall d0, descrs m x = Some d0 -> sv_d m' x = Some (d_ver d0)) /\
       (forall s, states m x = Some s -> sv_s m' x = Some (s_ver s));
-    cf_created : forall h d, In (h, Some d) L ->
-      descrs m' h = Some d /\
-      (descrs m h = None -> alist_get ts0 h <> None -> good h ->
-       exists s, states m' h = Some s /\ s_dver s = d_ver d /\ s_ver s = set_version (sv_s m) h 0);
+    cf_updated : forall h d, In (h, Some d) L -> descrs m h <> None -> descrs m' h = Some d;
+    cf_created : forall h d, In (h, Some d) L -> descrs m h = None ->
+      exists d', descrs m' h = Some d' /\ (d' = d \/ (d' = bumpd d /\ trigd L h)) /\
+        (alist_get ts0 h <> None -> good h ->
+         exists s, states m' h = Some s /\ s_dver s = d_ver d' /\ s_ver s = set_version (sv_s m) h 0);
     cf_state_step : forall h o s', states m h = Some o -> states m' h = Some s' -> s' = o \/ s_ver s' = s_ver o + 1;
     cf_state_follows : forall h d0 d' o,
       (forall x dx, descrs m x = Some dx -> d_kind dx = K_CTX -> states m x = None) ->
       good h -> descrs m h = Some d0 -> descrs m' h = Some d' -> d_ver d' <> d_ver d0 -> states m h = Some o ->
       exists s', states m' h = Some s' /\ s_ver s' = s_ver o + 1 /\ s_dver s' = d_ver d';
-    cf_state_frame : forall h, alist_get L h = None -> ~ trig L h -> ~ rem_below L h -> states m' h = states m h;
+    cf_state_frame : forall h, plain h -> ~ trig L h -> ~ rem_below L h -> states m' h = states m h;
     cf_ev_d : forall h, ev_d m h <= ev_d m' h;
-    cf_survive : forall h, alist_get L h = None -> ~ rem_below L h -> descrs m h <> None -> descrs m' h <> None;
-    cf_absent : forall h, alist_get L h = None -> descrs m h = None -> descrs m' h = None;
+    cf_survive : forall h, plain h -> ~ rem_below L h -> descrs m h <> None -> descrs m' h <> None;
+    cf_absent : forall h, plain h -> descrs m h = None -> descrs m' h = None;
     cf_cdeleted : forall D x ch c, In (D, None) L -> In x (subtree m D) -> cstates m ch = Some c -> c_dh c = x ->
       cstates m' ch = None /\ sv_c m' ch = Some (c_ver c);
     cf_cdom : forall ch, cstates m' ch <> None -> In ch (cdom m')
@@ -1716,70 +1795,107 @@ Section DescrFold.
 
     Let H1 := a_1 _ _ _ _ HA.
     Let HJ := a_2 _ _ _ _ HA.
+    Let LL : forall e : H * option descr, In e L -> In e L := fun e He => He.
+
+    Lemma fin_upd h d : In (h, Some d) L -> descrs m h <> None -> descrs mc h = Some d.
+    Proof.
+      intros Hi E. pose proof (i_d _ _ _ H1 h) as S. unfold dspec in S.
+      rewrite (L_get _ _ Hi), (pd_in _ _ _ Hi) in S. destruct (descrs m h); [exact S|contradiction].
+    Qed.
+    Lemma fin_cr h d : In (h, Some d) L -> descrs m h = None -> descrs mc h = Some (if memz h b then bumpd d else d).
+    Proof.
+      intros Hi E. pose proof (i_d _ _ _ H1 h) as S. unfold dspec in S.
+      now rewrite (L_get _ _ Hi), (pd_in _ _ _ Hi), E in S.
+    Qed.
+    Lemma fin_other h d0 : plain h -> descrs m h = Some d0 ->
+      (rem_below L h -> descrs mc h = None) /\ (~ rem_below L h -> descrs mc h = Some (if memz h b then bumpd d0 else d0)).
+    Proof.
+      intros G E. pose proof (i_d _ _ _ H1 h) as S. unfold dspec in S. rewrite E in S.
+      destruct (alist_get L h) as [[d|]|] eqn:Gh; [apply L_in in Gh; now apply G in Gh|exact S|exact S].
+    Qed.
+    Lemma plain_or h : (exists d, In (h, Some d) L) \/ plain h.
+    Proof.
+      destruct (alist_get L h) as [[d|]|] eqn:G; [left; exists d; now apply L_in| |];
+        right; intros d Hi; apply L_get in Hi; congruence.
+    Qed.
+    Lemma Rm_rem h : Rm h -> rem_below L h.
+    Proof. intros R. destruct (Rm_below h R) as (_ & D & HD & B). now exists D. Qed.
+    Lemma fin_entry_notRm h : alist_get ts h <> None -> ~ Rm h.
+    Proof.
+      intros Hy. destruct (j_t4 _ _ HJ h Hy) as [(d & Hi & _)|(_ & Mb & _)]; [exact (Hnc_h h d Hi)|exact (proj1 (i_b1 _ _ _ H1 h Mb))].
+    Qed.
+    Lemma fin_entry_descr h : alist_get ts h <> None -> descrs mc h <> None.
+    Proof.
+      intros Hy. pose proof (fin_entry_notRm h Hy) as NR.
+      destruct (j_t4 _ _ HJ h Hy) as [(d & Hi & _)|(G & Mb & d0 & E & _)].
+      - destruct (descrs m h) eqn:E; [rewrite (fin_upd h d Hi); congruence|rewrite (fin_cr h d Hi E); discriminate].
+      - rewrite (plain_present L mc b h d0 LL H1 E NR G). discriminate.
+    Qed.
 
     Lemma cm_descr h d0 d' : descrs m h = Some d0 -> descrs m' h = Some d' ->
-      (In (h, Some d') L) \/
-      (alist_get L h = None /\ trig L h /\ memz h b = true /\ d' = bumpd d0) \/
-      (alist_get L h = None /\ ~ trig L h /\ d' = d0).
+      (In (h, Some d') L) \/ (plain h /\ trig L h /\ memz h b = true /\ d' = bumpd d0) \/ (plain h /\ ~ trig L h /\ d' = d0).
     Proof.
-      intros E E'. rewrite Hd' in E'. destruct (alist_get L h) as [[d|]|] eqn:G.
-      - left. apply L_in in G. rewrite (fin_item_some mc b ts HA h d G) in E'. now injection E' as <-.
-      - apply L_in in G. rewrite (fin_item_none mc b ts HA h G) in E'. discriminate.
-      - right. destruct (fin_nonitem mc b ts HA h d0 G E) as [[S|S] _]; [congruence|].
-        rewrite E' in S. injection S as ->. destruct (memz h b) eqn:Mb.
-        + left. repeat split; try reflexivity. destruct (i_b1 _ _ _ H1 h Mb) as [(d & Hi & _)|(_ & T)]; [|exact T].
-          apply L_get in Hi. congruence.
-        + right. repeat split; try reflexivity. intros T.
-          assert (NR : ~ rem_below L h) by (apply safe_not_removed; [tauto|]; apply (trig_safe L h); [tauto|exact T]).
-          rewrite (a_b2 _ _ _ _ HA h d0 T G E NR) in Mb. discriminate.
+      intros E E'. rewrite Hd' in E'. destruct (plain_or h) as [(d & Hi)|G].
+      - left. rewrite (fin_upd h d Hi) in E'; [|congruence]. now injection E' as <-.
+      - right. destruct (fin_other h d0 G E) as [S1 S2].
+        destruct (rem_below_dec L h) as [R|R]; [rewrite (S1 R) in E'; discriminate|].
+        rewrite (S2 R) in E'. injection E' as <-. destruct (memz h b) eqn:Mb.
+        + left. split; [exact G|]. repeat split. destruct (i_b1 _ _ _ H1 h Mb) as [_ [(d & Hi & _)|(_ & T)]]; [now apply G in Hi|exact (proj1 T)].
+        + right. split; [exact G|]. split; [|reflexivity]. intros T.
+          assert (NRm : ~ Rm h) by (intros Rh; apply R; now apply Rm_rem).
+          rewrite (a_b2 _ _ _ _ HA h d0 T E NRm G) in Mb. discriminate.
     Qed.
 
     Lemma cm_state_descr h s : good h -> states m' h = Some s -> exists d, descrs m' h = Some d /\ s_dver s = d_ver d.
     Proof.
       intros Hg. rewrite Hs', Hd'. destruct (alist_get ts h) as [s'|] eqn:G.
       - intros [= <-]. assert (Hy : alist_get ts h <> None) by congruence.
-        pose proof (fin_entry_descr mc b ts HA h Hy) as Ed. destruct (descrs mc h) as [d|] eqn:E; [|contradiction].
+        pose proof (fin_entry_descr h Hy) as Ed. destruct (descrs mc h) as [d|] eqn:E; [|contradiction].
         exists d. split; [reflexivity|]. pose proof (a_t3 _ _ _ _ HA h d Hg E) as T. now rewrite G in T.
       - intros Es. assert (Ed : descrs mc h <> None) by (apply (i_st4 _ _ _ H1); congruence).
         destruct (descrs mc h) as [d|] eqn:E; [|contradiction]. exists d. split; [reflexivity|].
         pose proof (a_t3 _ _ _ _ HA h d Hg E) as T. rewrite G in T. now apply T.
     Qed.
 
+    Lemma cm_sd h : states m' h <> None -> descrs m' h <> None.
+    Proof.
+      rewrite Hs', Hd'. destruct (alist_get ts h) as [s'|] eqn:G.
+      - intros _. apply (fin_entry_descr h). congruence.
+      - apply (i_st4 _ _ _ H1).
+    Qed.
     Lemma cm_dom h : descrs m' h <> None -> In h (ddom m').
     Proof. rewrite Hd', Hdd'. apply (i_dom _ _ _ H1). Qed.
-
     Lemma cm_ctx h d : descrs m' h = Some d -> d_kind d = K_CTX -> states m' h = None.
-    Proof.
-      rewrite Hd', Hs'. intros E Ek. destruct (a_t3c _ _ _ _ HA h d E Ek) as [S1 S2]. now rewrite S2.
-    Qed.
+    Proof. rewrite Hd', Hs'. intros E Ek. destruct (a_t3c _ _ _ _ HA h d E Ek) as [S1 S2]. now rewrite S2. Qed.
 
     Lemma cm_deleted D x : In (D, None) L -> In x (subtree m D) ->
       descrs m' x = None /\ states m' x = None /\
       (forall d0, descrs m x = Some d0 -> sv_d m' x = Some (d_ver d0)) /\
       (forall s, states m x = Some s -> sv_s m' x = Some (s_ver s)).
     Proof.
-      intros HD Hx. assert (Gt : alist_get ts x = None).
-      { destruct (alist_get ts x) eqn:G; [|reflexivity]. exfalso.
-        pose proof Hx as Hx'. apply subtree_In in Hx'. destruct Hx' as (_ & Ex & R).
-        refine (fin_entry_safe mc b ts HA x _ Ex D HD _); [congruence|]. eapply reaches_below; eassumption. }
-      rewrite Hd', Hs', Hv', Hvs', Gt. repeat split.
-      - eapply (i_rem _ _ _ H1); eassumption.
-      - eapply (i_st2 _ _ _ H1); eassumption.
-      - intros d0 E. eapply (i_svd1 _ _ _ H1); eassumption.
-      - intros s E. eapply (i_svs1 _ _ _ H1); eassumption.
+      intros HD Hx. assert (Rx : Rm x) by (exists D; now split). pose proof (Rm_rem x Rx) as R.
+      assert (Gt : alist_get ts x = None).
+      { destruct (alist_get ts x) eqn:G; [|reflexivity]. exfalso. apply (fin_entry_notRm x); [congruence|exact Rx]. }
+      assert (En : descrs mc x = None).
+      { destruct (Rm_below x Rx) as [Ex _]. destruct (descrs m x) as [d0|] eqn:E; [|contradiction].
+        destruct (plain_or x) as [(d & Hi)|G]; [exfalso; exact (Hnc_h x d Hi Rx)|]. now apply (fin_other x d0 G E). }
+      rewrite Hd', Hs', Hv', Hvs', Gt. split; [exact En|]. split; [now apply (i_stR _ _ _ H1)|]. split.
+      - intros d0 E. now apply (i_svd3 _ _ _ H1).
+      - intros s E. now apply (i_svsR _ _ _ H1).
     Qed.
 
-    Lemma cm_created h d : In (h, Some d) L ->
-      descrs m' h = Some d /\
-      (descrs m h = None -> alist_get ts0 h <> None -> good h ->
-       exists s, states m' h = Some s /\ s_dver s = d_ver d /\ s_ver s = set_version (sv_s m) h 0).
+    Lemma cm_created h d : In (h, Some d) L -> descrs m h = None ->
+      exists d', descrs m' h = Some d' /\ (d' = d \/ (d' = bumpd d /\ trigd L h)) /\
+        (alist_get ts0 h <> None -> good h ->
+         exists s, states m' h = Some s /\ s_dver s = d_ver d' /\ s_ver s = set_version (sv_s m) h 0).
     Proof.
-      intros Hi. pose proof (fin_item_some mc b ts HA h d Hi) as E. split; [now rewrite Hd'|].
-      intros Eo H0 Hg. apply Hkept in H0. destruct (alist_get ts h) as [s'|] eqn:G; [|contradiction].
-      exists s'. rewrite Hs', G. split; [reflexivity|]. split.
-      - pose proof (a_t3 _ _ _ _ HA h d Hg E) as T. now rewrite G in T.
-      - destruct (j_t5 _ _ HJ h s' G) as [[_ V]|(o & Es & _)]; [exact V|].
-        exfalso. apply (Hsd h); congruence.
+      intros Hi Eo. pose proof (fin_cr h d Hi Eo) as E. eexists. rewrite Hd'. split; [exact E|]. split.
+      - destruct (memz h b) eqn:Mb; [|now left]. right. split; [reflexivity|].
+        destruct (i_b1 _ _ _ H1 h Mb) as [_ [(dx & _ & Ex)|(_ & T)]]; [congruence|exact (proj2 T Eo)].
+      - intros H0 Hg. apply Hkept in H0. destruct (alist_get ts h) as [s'|] eqn:G; [|contradiction].
+        exists s'. rewrite Hs', G. split; [reflexivity|]. split.
+        + pose proof (a_t3 _ _ _ _ HA h _ Hg E) as T. now rewrite G in T.
+        + destruct (j_t5 _ _ HJ h s' G) as [[_ V]|(o & Es & _)]; [exact V|]. exfalso. apply (Hsd h); congruence.
     Qed.
 
     Lemma cm_state_step h o s' : states m h = Some o -> states m' h = Some s' -> s' = o \/ s_ver s' = s_ver o + 1.
@@ -1808,67 +1924,64 @@ Section DescrFold.
       - rewrite Hd' in E'. pose proof (a_t3 _ _ _ _ HA h d' Hg E') as T. now rewrite G in T.
     Qed.
 
-    Lemma cm_state_frame h : alist_get L h = None -> ~ trig L h -> ~ rem_below L h -> states m' h = states m h.
+    Lemma cm_state_frame h : plain h -> ~ trig L h -> ~ rem_below L h -> states m' h = states m h.
     Proof.
       intros G NT NR. rewrite Hs'. destruct (alist_get ts h) as [s1|] eqn:Gt.
       - exfalso. assert (Hy : alist_get ts h <> None) by congruence.
-        destruct (j_t4 _ _ HJ h Hy) as [(d & Hi & _)|(_ & Mb & _)].
-        + apply L_get in Hi. congruence.
-        + destruct (i_b1 _ _ _ H1 h Mb) as [(d & Hi & _)|(_ & T)]; [apply L_get in Hi; congruence|contradiction].
+        destruct (j_t4 _ _ HJ h Hy) as [(d & Hi & _)|(_ & Mb & _)]; [now apply G in Hi|].
+        destruct (i_b1 _ _ _ H1 h Mb) as [_ [(d & Hi & _)|(_ & T)]]; [now apply G in Hi|exact (NT (proj1 T))].
       - now apply (i_st3 _ _ _ H1).
     Qed.
 
     Lemma cm_ev_d h : ev_d m h <= ev_d m' h.
     Proof.
-      unfold ev_d. rewrite Hd', Hv'. destruct (alist_get L h) as [[d|]|] eqn:G.
-      - apply L_in in G. rewrite (fin_item_some mc b ts HA h d G). pose proof (HLi _ _ G) as Ok. unfold ditem_ok in Ok.
-        destruct (descrs m h) as [o|]; [lia|]. unfold set_version in Ok. destruct (sv_d m h); lia.
-      - apply L_in in G. rewrite (fin_item_none mc b ts HA h G). pose proof (HLi _ _ G) as Ok. unfold ditem_ok in Ok.
-        destruct (descrs m h) as [o|] eqn:Eo; [|contradiction].
-        rewrite (i_svd3 _ _ _ H1 h o Eo (fin_item_none mc b ts HA h G)). lia.
+      unfold ev_d. rewrite Hd', Hv'. destruct (plain_or h) as [(d & Hi)|G].
+      - pose proof (HLi _ _ Hi) as Ok. unfold ditem_ok in Ok. destruct (descrs m h) as [o|] eqn:Eo.
+        + rewrite (fin_upd h d Hi); [lia|congruence].
+        + rewrite (fin_cr h d Hi Eo). unfold set_version in Ok. destruct (memz h b); cbn [bumpd d_ver]; destruct (sv_d m h); lia.
       - destruct (descrs m h) as [d0|] eqn:Eo.
-        + destruct (fin_nonitem mc b ts HA h d0 G Eo) as [[S|S] _].
-          * rewrite S, (i_svd3 _ _ _ H1 h d0 Eo S). lia.
-          * rewrite S. destruct (memz h b); cbn; lia.
-        + pose proof (i_d _ _ _ H1 h) as S. unfold dspec in S. rewrite G, Eo in S. rewrite S.
-          rewrite (i_svd2 _ _ _ H1 h); [lia|]. intros (D & HD & B).
-          apply (below_absent _ _ _ Eo) in B. subst D. apply L_get in HD. congruence.
-    Qed.
-    Lemma cm_sd h : states m' h <> None -> descrs m' h <> None.
-    Proof.
-      rewrite Hs', Hd'. destruct (alist_get ts h) as [s'|] eqn:G.
-      - intros _. apply (fin_entry_descr mc b ts HA h). congruence.
-      - apply (i_st4 _ _ _ H1).
+        + destruct (fin_other h d0 G Eo) as [S1 S2]. destruct (rem_below_dec L h) as [R|R].
+          * rewrite (S1 R), (i_svd3 _ _ _ H1 h d0 Eo (S1 R)). lia.
+          * rewrite (S2 R). destruct (memz h b); cbn; lia.
+        + pose proof (i_d _ _ _ H1 h) as S. unfold dspec in S. rewrite Eo in S.
+          assert (En : descrs mc h = None).
+          { destruct (alist_get L h) as [[d|]|] eqn:Gh; [apply L_in in Gh; now apply G in Gh|exact S|exact S]. }
+          rewrite En, (i_svd2 _ _ _ H1 h); [lia|]. intros (D & HD & B).
+          apply (below_absent _ _ _ Eo) in B. subst D. now apply del_exists in HD.
     Qed.
 
     Lemma cm_all : commit_facts ts0 m'.
     Proof.
       constructor.
-      - intros h d0 d' E E'. destruct (cm_descr h d0 d' E E') as [A|[(A1 & A2 & _ & A3)|A]]; [now left|right; left; auto|right; now right].
+      - intros h d0 d' E E'. destruct (cm_descr h d0 d' E E') as [A|[(A0 & A1 & _ & A3)|A]]; [now left|right; left; auto|right; now right].
       - exact cm_state_descr.
       - exact cm_sd.
       - exact cm_dom.
       - exact cm_ctx.
       - exact cm_deleted.
+      - intros h d Hi E. rewrite Hd'. now apply fin_upd.
       - exact cm_created.
       - exact cm_state_step.
       - exact cm_state_follows.
       - exact cm_state_frame.
       - exact cm_ev_d.
       - intros h G NR E. rewrite Hd'. destruct (descrs m h) as [d0|] eqn:Eo; [|contradiction].
-        exact (proj2 (fin_nonitem mc b ts HA h d0 G Eo) NR).
-      - intros h G E. rewrite Hd'. pose proof (i_d _ _ _ H1 h) as S. unfold dspec in S. now rewrite G, E in S.
+        rewrite (proj2 (fin_other h d0 G Eo) NR). discriminate.
+      - intros h G E. rewrite Hd'. pose proof (i_d _ _ _ H1 h) as S. unfold dspec in S. rewrite E in S.
+        destruct (alist_get L h) as [[d|]|] eqn:Gh; [apply L_in in Gh; now apply G in Gh|exact S|exact S].
       - intros D x ch c HD Hx Ec Ex. rewrite Hcs', Hvc'.
+        assert (Rx : Rm x) by (exists D; now split).
         assert (Gt : alist_get tc ch = None).
         { destruct (alist_get tc ch) eqn:G; [|reflexivity]. exfalso.
           destruct (proj2 HTC ch) as (c' & Ec' & Safe); [congruence|]. rewrite Ec in Ec'. injection Ec' as <-.
-          apply (Safe D HD). rewrite Ex. apply subtree_In in Hx. destruct Hx as (_ & _ & R). eapply reaches_below; exact R. }
-        rewrite Gt. exact (c_rem _ _ HC D x ch c HD Hx Ec Ex).
+          apply Safe. now rewrite Ex. }
+        rewrite Gt. apply (c_rem _ _ HC ch c Ec). rewrite Ex. now apply Rm_rem.
       - intros ch. rewrite Hcs'. destruct (alist_get tc ch) as [x|] eqn:G.
         + intros _. apply Hcd2'. congruence.
         + intros Hc. apply Hcd1', (c_dom _ _ HC), Hcdom. destruct (c_sub _ _ HC ch) as [S|S]; congruence.
     Qed.
   End Committed.
+
   (* the whole commit loop followed by the write-back *)
   Lemma commit_loop_facts t :
     InvAll [] (bump_ver m) [] (t_s t) -> t_c t = [] ->
@@ -1879,36 +1992,26 @@ Section DescrFold.
     assert (HC0 : InvC [] (bump_ver m)).
     { constructor; cbn [cstates sv_c cdom bump_ver].
       - intros ch. now right.
-      - intros D x ch c [].
+      - intros ch c _ (D & [] & _).
       - intros ch c Ec _. now split.
       - apply incl_refl. }
     assert (HT0 : InvTC (t_c t)) by (rewrite Htc; split; [constructor|intros ch Hc; now contradiction Hc]).
     destruct (invall_fold L [] (bump_ver m) t [] eq_refl HA0 HC0 HT0) as (HA & HC & HT & Hkept). cbv zeta in HA, HC, HT, Hkept.
     destruct (fold_left (process_item cr up de) L (bump_ver m, t, [])) as [[mc t1] b]. cbn [fst snd] in *.
     destruct (hsu_pointwise mc t1 (j_nd _ _ (a_2 _ _ _ _ HA))) as (A & B & C & D & E).
-    destruct (hsu_cstates mc t1 (proj1 HT)) as (A2 & B2 & C2 & D2).
-    exact (cm_all mc b (t_s t1) (t_s t) (t_c t1) _ HA HC HT A2 B2 C2 D2 Hkept A B C D E).
+    destruct (hsu_cstates mc t1 (proj1 HT)) as (A2 & B2' & C2 & D2).
+    exact (cm_all mc b (t_s t1) (t_s t) (t_c t1) _ HA HC HT A2 B2' C2 D2 Hkept A B C D E).
   Qed.
-
 End DescrFold.
 
 (* ---------------------------------------------------------------- descriptor transactions *)
-(* well-formedness of the MDIB (preserved by every transaction, see [wf_history]) *)
+(* well-formedness of the MDIB (preserved by every transaction, see [all_history]) *)
 Record mdib_wf (m : mdib) : Prop := {
   wf_dom : forall h, descrs m h <> None -> In h (ddom m);                       (* ddom lists every descriptor *)
   wf_sd : forall h, states m h <> None -> descrs m h <> None;                   (* no state without descriptor *)
   wf_ctx : forall h d, descrs m h = Some d -> d_kind d = K_CTX -> states m h = None; (* context descriptors have no single state *)
   wf_cdom : forall ch, cstates m ch <> None -> In ch (cdom m)                        (* cdom lists every context state *)
 }.
-
-(* well-formedness of the calls of one descriptor transaction: a removed subtree is disjoint from everything
-   else the transaction touches, and the parent of a removed descriptor exists and is not its own descendant *)
-Definition acts_sep (m : mdib) (acts : list action) : Prop :=
-  forall D, In (ADDel D) acts ->
-    (forall x p, In (ADUpd x p) acts -> ~ below m x D) /\
-    (forall x par k p sp, In (ADAdd x (Some par) k p sp) acts -> ~ below m par D) /\
-    (forall x, In (ADDel x) acts -> x <> D -> ~ below m x D) /\
-    (forall dD par, descrs m D = Some dD -> d_parent dD = Some par -> descrs m par <> None /\ ~ below m par D).
 
 (* h is updated by a call, or is the parent of an added / removed descriptor *)
 Definition touched (m : mdib) (acts : list action) (h : H) : Prop :=
@@ -1936,33 +2039,44 @@ Proof.
   - intros (d & Hi & E). exists (p, Some d). split; [reflexivity|]. apply filter_In. split; [exact Hi|].
     unfold is_update. cbn [fst snd]. destruct (descrs m p); [reflexivity|contradiction].
 Qed.
-Lemma de_spec m L p : memz p (map fst (filter (is_delete m) L)) = true <-> In (p, None) L /\ descrs m p <> None.
+Lemma rm_spec m t p : (forall h x, In (h, x) (t_d t) -> ditem_ok m h x) ->
+  memz p (removed_handles m t) = true <-> Rm m (t_d t) p.
 Proof.
-  rewrite memz_In, in_map_iff. split.
-  - intros ([k x] & <- & Hi). apply filter_In in Hi. destruct Hi as [Hi E]. unfold is_delete in E. cbn [fst snd] in *.
-    destruct x as [d|]; [discriminate|]. destruct (descrs m k) eqn:Ek; [|discriminate]. split; [exact Hi|discriminate].
-  - intros (Hi & E). exists (p, None). split; [reflexivity|]. apply filter_In. split; [exact Hi|].
-    unfold is_delete. cbn [fst snd]. destruct (descrs m p); [reflexivity|contradiction].
+  intros Hi. unfold removed_handles, Rm. rewrite memz_In, in_flat_map. split.
+  - intros ([k x] & He & Hp). unfold is_delete in Hp. cbn [fst snd] in Hp.
+    destruct x as [d|]; [contradiction|]. destruct (descrs m k); [|contradiction]. now exists k.
+  - intros (D & HD & Hp). exists (D, None). split; [exact HD|]. unfold is_delete. cbn [fst snd].
+    pose proof (Hi _ _ HD) as Ok. unfold ditem_ok in Ok. destruct (descrs m D); [exact Hp|contradiction].
 Qed.
 
-Lemma commit_descr_facts m acts t : mdib_wf m -> dtx_ok m acts t -> acts_sep m acts -> t_d t <> [] ->
+Lemma existsb_false {A} (f : A -> bool) l : existsb f l = false -> forall x, In x l -> f x = false.
+Proof.
+  intros E x Hx. destruct (f x) eqn:Fx; [|reflexivity]. exfalso.
+  assert (T : existsb f l = true) by (apply existsb_exists; eauto). congruence.
+Qed.
+
+Lemma no_conflict m t : (forall h x, In (h, x) (t_d t) -> ditem_ok m h x) -> subtree_conflict m t = false ->
+  (forall h d, In (h, Some d) (t_d t) -> ~ Rm m (t_d t) h) /\
+  (forall h d p, In (h, Some d) (t_d t) -> d_parent d = Some p -> ~ Rm m (t_d t) p).
+Proof.
+  intros Hi Hc. unfold subtree_conflict in Hc. cbv zeta in Hc.
+  pose proof (existsb_false _ _ Hc) as A. cbv beta in A.
+  split.
+  - intros h d Hh R. apply (rm_spec m t h Hi) in R. specialize (A _ Hh). cbn [fst snd] in A. now rewrite R in A.
+  - intros h d p Hh P R. apply (rm_spec m t p Hi) in R. specialize (A _ Hh). cbn [fst snd] in A.
+    rewrite P, R in A. now rewrite orb_true_r in A.
+Qed.
+
+Lemma commit_descr_facts m acts t : mdib_wf m -> dtx_ok m acts t -> subtree_conflict m t = false -> t_d t <> [] ->
   commit_facts (good0 m) m (t_d t) (t_s t) (commit_descr m t).
 Proof.
-  intros [Wd Wsd Wc Wcd] [Hc Hn Hsn Hi Hs] Hsep Hne.
-  assert (DelIn : forall D, In (D, None) (t_d t) -> In (ADDel D) acts) by (intros D HD; exact (proj2 (Hi _ _ HD))).
+  intros [Wd Wsd Wc Wcd] [Hc Hn Hsn Hi Hs] Hnc Hne.
+  assert (Hi1 : forall h x, In (h, x) (t_d t) -> ditem_ok m h x) by (intros h x Hx; exact (proj1 (Hi h x Hx))).
+  destruct (no_conflict m t Hi1 Hnc) as [Nh Np].
   pose proof (commit_loop_facts (good0 m) m (t_d t) (map fst (filter (is_create m) (t_d t)))
-                (map fst (filter (is_update m) (t_d t))) (map fst (filter (is_delete m) (t_d t))) Hn
-                (fun h x Hx => proj1 (Hi h x Hx)) (cr_spec m _) (up_spec m _) (de_spec m _) Wd Wsd) as F.
+                (map fst (filter (is_update m) (t_d t))) (removed_handles m t) Hn Hi1 Wd Wsd
+                (cr_spec m _) (up_spec m _) (fun p => rm_spec m t p Hi1) Nh Np Wcd t) as F.
   unfold commit_descr. destruct (t_d t) as [|e0 r0] eqn:EL; [contradiction|]. rewrite <- EL in *.
-  match type of F with _ -> _ -> _ -> _ -> ?G => assert (F' : G) end.
-  { apply F.
-    - (* Sup *) intros D h d HD Hh Eh. destruct (proj2 (Hi _ _ Hh)) as [[E _]|[_ (p & Hp)]]; [contradiction|].
-      exact (proj1 (Hsep D (DelIn D HD)) h p Hp).
-    - (* Sadd *) intros D h d p HD Hh Eh Pp. destruct (proj2 (Hi _ _ Hh)) as [[_ (pp & sp & Hp)]|[E _]]; [|contradiction].
-      rewrite Pp in Hp. exact (proj1 (proj2 (Hsep D (DelIn D HD))) h p _ _ _ Hp).
-    - (* Sdel *) intros D x HD Hx Hxd. exact (proj1 (proj2 (proj2 (Hsep D (DelIn D HD)))) x (DelIn x Hx) Hxd).
-    - (* Spar *) intros D dD p HD. exact (proj2 (proj2 (proj2 (Hsep D (DelIn D HD)))) dD p). }
-  clear F. specialize (F' Wcd t).
   assert (HA0 : InvAll (good0 m) m (t_d t) [] (bump_ver m) [] (t_s t)).
   { destruct (inv1_init m (t_d t) Wd Wsd) as [I1 I2]. constructor; try assumption.
     - intros h d [].
@@ -1982,18 +2096,30 @@ Proof.
       destruct (alist_get (t_s t) h) as [s'|] eqn:G; [|reflexivity]. exfalso. apply alist_get_some_in in G.
       destruct (Hs h s' G) as (d' & Hd & Ek' & _). pose proof (proj1 (Hi _ _ Hd)) as Ok. unfold ditem_ok in Ok.
       rewrite Ed in Ok. destruct Ok as (_ & Ok & _). congruence. }
-  specialize (F' HA0 Hc). cbv zeta in F'.
-  destruct (fold_left _ (t_d t) (bump_ver m, t, [])) as [[m1 t1] b1]. exact F'.
+  specialize (F HA0 Hc). cbv zeta in F.
+  destruct (fold_left _ (t_d t) (bump_ver m, t, [])) as [[m1 t1] b1]. exact F.
+Qed.
+
+(* [subtree m D] is the real subtree: x is in it iff x has a descriptor and D is reachable from x over parent links *)
+Lemma subtree_exact m : mdib_wf m -> forall D x, In x (subtree m D) <-> descrs m x <> None /\ below m x D.
+Proof.
+  intros W D x. rewrite subtree_In. split.
+  - intros (_ & Ex & R). split; [exact Ex|]. eapply reaches_below; exact R.
+  - intros (Ex & B). split; [now apply (wf_dom m W)|]. split; [exact Ex|]. apply fuel_ok; [apply (wf_dom m W)|exact B].
 Qed.
 
 Lemma consistent_good m : states_consistent m -> forall h, good0 m h.
 Proof. intros Hc h s d Es Ed. destruct (Hc h s Es) as (d1 & E1 & V). congruence. Qed.
 
+(* a transaction that creates or updates a descriptor inside a subtree it removes is refused: ApiUsageError, nothing changed *)
+Theorem conflict_rejected m acts t : body 6 m empty_tx acts = Ok t -> subtree_conflict m t = true ->
+  transaction 6 None acts m = (m, 3).
+Proof. intros B C. unfold transaction. rewrite B. cbn. now rewrite C. Qed.
+
 Section DescrTx.
   Variables (m : mdib) (acts : list action).
   Hypothesis Hwf : mdib_wf m.
   Hypothesis Hacts : descr_only acts.
-  Hypothesis Hsep : acts_sep m acts.
 
   Let m' := fst (transaction 6 None acts m).
   Let code := snd (transaction 6 None acts m).
@@ -2004,14 +2130,32 @@ Section DescrTx.
        ((t_d t = [] /\ m' = m) \/ (t_d t <> [] /\ commit_facts (good0 m) m (t_d t) (t_s t) m'))).
   Proof.
     subst m' code. unfold transaction. destruct (body 6 m empty_tx acts) as [t|e] eqn:B.
-    - right. exists t. cbn [fst snd]. replace (6 =? 6) with true by reflexivity.
-      pose proof (body_dtx_ok m acts acts empty_tx t Hacts (incl_refl _) (empty_dtx_ok m acts) B) as Hok.
-      destruct (body_items m acts empty_tx t Hacts B) as (_ & _ & Hit).
-      split; [reflexivity|]. split; [exact Hok|]. split; [exact Hit|].
-      destruct (t_d t) as [|e0 r0] eqn:EL.
-      + left. split; [reflexivity|]. now apply commit_descr_empty.
-      + right. split; [discriminate|]. rewrite <- EL. apply (commit_descr_facts m acts t Hwf Hok Hsep). rewrite EL. discriminate.
+    - replace (6 =? 6) with true by reflexivity. destruct (subtree_conflict m t) eqn:C.
+      + left. cbn. split; [discriminate|reflexivity].
+      + right. exists t. cbn [fst snd].
+        pose proof (body_dtx_ok m acts acts empty_tx t Hacts (incl_refl _) (empty_dtx_ok m acts) B) as Hok.
+        destruct (body_items m acts empty_tx t Hacts B) as (_ & _ & Hit).
+        split; [reflexivity|]. split; [exact Hok|]. split; [exact Hit|].
+        destruct (t_d t) as [|e0 r0] eqn:EL.
+        * left. split; [reflexivity|]. now apply commit_descr_empty.
+        * right. split; [discriminate|]. rewrite <- EL. apply (commit_descr_facts m acts t Hwf Hok C). rewrite EL. discriminate.
     - left. destruct e; cbn; split; (discriminate || reflexivity).
+  Qed.
+
+  Lemma trig_touched t h : dtx_ok m acts t -> trig m (t_d t) h -> touched m acts h.
+  Proof.
+    intros Hok (e & He & T). destruct e as [c [d|]]; unfold trig_item in T; cbn [fst snd] in T.
+    - destruct T as [Ec Pc]. destruct (proj2 (dx_items _ _ _ Hok c _ He)) as [[_ (p & sp & Hp)]|[Eo _]]; [|contradiction].
+      rewrite Pc in Hp. right. left. now exists c, (d_kind d), p, sp.
+    - destruct T as (dc & Ec & Pc). right. right. exists c, dc. split; [exact (proj2 (dx_items _ _ _ Hok c _ He))|now split].
+  Qed.
+  Lemma touched_trig t h : dtx_ok m acts t -> (forall a, In a acts -> item_of m t a) -> plain (t_d t) h ->
+    touched m acts h -> trig m (t_d t) h.
+  Proof.
+    intros Hok Hit G [(p & Hp)|[(c & k & p & sp & Hp)|(c & dc & Hp & Ec & Pc)]]; apply Hit in Hp; cbn [item_of] in Hp.
+    - destruct Hp as [(d & Hd) _]. now apply G in Hd.
+    - destruct Hp as (Hd & Ec & _). eexists. split; [exact Hd|]. unfold trig_item. cbn [fst snd d_parent]. now split.
+    - destruct Hp as (Hd & _). exists (c, None). split; [exact Hd|]. unfold trig_item. cbn [fst snd]. now exists dc.
   Qed.
 
   (* 1. descriptor versions *)
@@ -2026,22 +2170,20 @@ Section DescrTx.
       + destruct Hp as [(d & []) _].
       + destruct Hp as [[] _].
       + destruct Hp as [[] _].
-    - pose proof (dx_nodup _ _ _ Hok) as Hn.
-      destruct (cf_descr _ _ _ _ _ F h d0 d' E E') as [Hi|[(G & (e & He & T) & ->)|(G & NT & ->)]].
+    - destruct (cf_descr _ _ _ _ _ F h d0 d' E E') as [Hi|[(G & T & ->)|(G & NT & ->)]].
       + left. destruct (dx_items _ _ _ Hok h _ Hi) as [Ok Act]. unfold ditem_ok in Ok. rewrite E in Ok.
         destruct Ok as (Op & Ok & Ov). cbn [act_of] in Act. destruct Act as [[Eo _]|[_ (p & Hp)]]; [congruence|].
         split; [left; now exists p|]. repeat split; try assumption. intros Hno. exfalso. exact (Hno p Hp).
-      + left. split.
-        * destruct e as [c [d|]]; unfold trig_item in T; cbn [fst snd] in T.
-          -- destruct T as [Ec Pc]. destruct (proj2 (dx_items _ _ _ Hok c _ He)) as [[_ (p & sp & Hp)]|[Eo _]]; [|contradiction].
-             rewrite Pc in Hp. right. left. now exists c, (d_kind d), p, sp.
-          -- destruct T as (dc & Ec & Pc). right. right. exists c, dc. split; [exact (proj2 (dx_items _ _ _ Hok c _ He))|now split].
-        * cbn. repeat split. 
-      + right. split; [|reflexivity].
-        intros [(p & Hp)|[(c & k & p & sp & Hp)|(c & dc & Hp & Ec & Pc)]]; apply Hit in Hp; cbn [item_of] in Hp.
-        * destruct Hp as [(d & Hd) _]. apply (alist_get_in _ _ _ Hn) in Hd. congruence.
-        * destruct Hp as (Hd & Ec & _). apply NT. eexists. split; [exact Hd|]. unfold trig_item. cbn [fst snd d_parent]. now split.
-        * destruct Hp as (Hd & _). apply NT. exists (c, None). split; [exact Hd|]. unfold trig_item. cbn [fst snd]. now exists dc.
+      + left. split; [exact (trig_touched t h Hok T)|]. cbn. repeat split.
+      + right. split; [|reflexivity]. intros Tc. apply NT. exact (touched_trig t h Hok Hit G Tc).
+  Qed.
+
+  (* a descriptor that is there before and after a committed transaction does not lie in a removed subtree *)
+  Theorem descr_tx_survivor : code = 0 -> forall h D, In (ADDel D) acts -> In h (subtree m D) -> descrs m' h = None.
+  Proof.
+    intros Hc h D HD Hx. destruct descr_tx_cases as [[N _]|(t & _ & Hok & Hit & [[EL _]|[NL F]])]; [contradiction| |].
+    - apply Hit in HD. cbn [item_of] in HD. rewrite EL in HD. destruct HD as [[] _].
+    - apply Hit in HD. cbn [item_of] in HD. exact (proj1 (cf_deleted _ _ _ _ _ F D h (proj1 HD) Hx)).
   Qed.
 
   (* frame: a handle that no call names, that is not the parent of an added / removed descriptor and does not lie
@@ -2053,24 +2195,17 @@ Section DescrTx.
     descrs m' h = descrs m h /\ states m' h = states m h.
   Proof.
     intros h Nn Nt Nb. destruct descr_tx_cases as [[_ ->]|(t & _ & Hok & Hit & [[EL ->]|[NL F]])]; [now split|now split|].
-    assert (G : alist_get (t_d t) h = None).
-    { destruct (alist_get (t_d t) h) as [x|] eqn:G; [|reflexivity]. exfalso. apply Nn. apply alist_get_some_in in G.
-      pose proof (proj2 (dx_items _ _ _ Hok h x G)) as Act. destruct x as [d|]; cbn [act_of] in Act.
-      - destruct Act as [[_ (p & sp & Hp)]|[_ (p & Hp)]]; [right; left; now exists (d_parent d), (d_kind d), p, sp|left; now exists p].
-      - now right; right. }
-    assert (NT : ~ trig m (t_d t) h).
-    { intros (e & He & T). apply Nt. destruct e as [c [d|]]; unfold trig_item in T; cbn [fst snd] in T.
-      - destruct T as [Ec Pc]. destruct (proj2 (dx_items _ _ _ Hok c _ He)) as [[_ (p & sp & Hp)]|[Eo _]]; [|contradiction].
-        rewrite Pc in Hp. right. left. now exists c, (d_kind d), p, sp.
-      - destruct T as (dc & Ec & Pc). right. right. exists c, dc. split; [exact (proj2 (dx_items _ _ _ Hok c _ He))|now split]. }
+    assert (G : plain (t_d t) h).
+    { intros d Hd. apply Nn. destruct (proj2 (dx_items _ _ _ Hok h _ Hd)) as [[_ (p & sp & Hp)]|[_ (p & Hp)]];
+        [right; left; now exists (d_parent d), (d_kind d), p, sp|left; now exists p]. }
+    assert (NT : ~ trig m (t_d t) h) by (intros T; apply Nt; exact (trig_touched t h Hok T)).
     assert (NR : ~ rem_below m (t_d t) h).
     { intros (D & HD & B). exact (Nb D (proj2 (dx_items _ _ _ Hok D _ HD)) B). }
     split; [|exact (cf_state_frame _ _ _ _ _ F h G NT NR)].
     destruct (descrs m h) as [d0|] eqn:E.
     - pose proof (cf_survive _ _ _ _ _ F h G NR) as Sv. rewrite E in Sv. specialize (Sv ltac:(discriminate)).
       destruct (descrs m' h) as [d'|] eqn:E'; [|contradiction].
-      destruct (cf_descr _ _ _ _ _ F h d0 d' E E') as [Hi|[(_ & T & _)|(_ & _ & ->)]]; [|contradiction|reflexivity].
-      apply (alist_get_in _ _ _ (dx_nodup _ _ _ Hok)) in Hi. congruence.
+      destruct (cf_descr _ _ _ _ _ F h d0 d' E E') as [Hi|[(_ & T & _)|(_ & _ & ->)]]; [now apply G in Hi|contradiction|reflexivity].
     - exact (cf_absent _ _ _ _ _ F h G E).
   Qed.
 
@@ -2081,8 +2216,6 @@ Section DescrTx.
     intros h s Es. exact (cf_state_descr _ _ _ _ _ F h s (consistent_good m Hc h) Es).
   Qed.
 
-  (* a state version moves by at most one; when the descriptor got a new version (updated, or bumped as a parent)
-     its state gets a new StateVersion and the new DescriptorVersion *)
   Theorem descr_tx_states :
     (forall h o s', states m h = Some o -> states m' h = Some s' -> s' = o \/ s_ver s' = s_ver o + 1) /\
     (states_consistent m -> forall h d0 d' o, descrs m h = Some d0 -> descrs m' h = Some d' -> d_ver d' <> d_ver d0 ->
@@ -2109,18 +2242,37 @@ Section DescrTx.
       intros ch c Ec Ex. exact (cf_cdeleted _ _ _ _ _ F D x ch c (proj1 HD) Hx Ec Ex).
   Qed.
 
+  (* the added descriptor starts at 0 or continues from the remembered version + 1 ([set_version]); it is one higher only
+     if the same transaction also removes a child that named this (so far missing) handle as its parent; its state follows *)
   Theorem descr_tx_created : code = 0 -> forall h par k p sp, In (ADAdd h par k p sp) acts ->
     descrs m h = None /\
-    descrs m' h = Some (mkDescr par k (set_version (sv_d m) h 0) p) /\
-    (k <> K_CTX -> exists s, states m' h = Some s /\ s_dver s = set_version (sv_d m) h 0 /\
-                             s_ver s = set_version (sv_s m) h 0).
+    exists d', descrs m' h = Some d' /\ d_parent d' = par /\ d_kind d' = k /\ d_pay d' = p /\
+      (d_ver d' = set_version (sv_d m) h 0 \/
+       (d_ver d' = set_version (sv_d m) h 0 + 1 /\
+        exists c dc, In (ADDel c) acts /\ descrs m c = Some dc /\ d_parent dc = Some h)) /\
+      (k <> K_CTX -> exists s, states m' h = Some s /\ s_dver s = d_ver d' /\ s_ver s = set_version (sv_s m) h 0).
   Proof.
     intros Hc h par k p sp Ha. destruct descr_tx_cases as [[N _]|(t & _ & Hok & Hit & [[EL _]|[NL F]])]; [contradiction| |].
     - apply Hit in Ha. cbn [item_of] in Ha. rewrite EL in Ha. destruct Ha as [[] _].
-    - apply Hit in Ha. cbn [item_of] in Ha. destruct Ha as (Hi & Eo & Hk).
-      destruct (cf_created _ _ _ _ _ F h _ Hi) as [Ed Es]. split; [exact Eo|]. split; [exact Ed|].
-      intros Ek. apply Es; [exact Eo| |intros s d _ Ed0; congruence].
-      apply alist_has_in in Hk; [|exact Ek]. unfold alist_has in Hk. destruct (alist_get (t_s t) h); [discriminate|discriminate].
+    - apply Hit in Ha. cbn [item_of] in Ha. destruct Ha as (Hi & Eo & Hk). split; [exact Eo|].
+      destruct (cf_created _ _ _ _ _ F h _ Hi Eo) as (d' & Ed & Hd & Es). exists d'. split; [exact Ed|].
+      assert (Hs : k <> K_CTX -> exists s, states m' h = Some s /\ s_dver s = d_ver d' /\ s_ver s = set_version (sv_s m) h 0).
+      { intros Ek. apply Es; [|intros s d _ Ed0; congruence].
+        apply alist_has_in in Hk; [|exact Ek]. unfold alist_has in Hk. destruct (alist_get (t_s t) h); [discriminate|discriminate]. }
+      destruct Hd as [->|[-> (c & dc & Hc1 & Hc2 & Hc3)]]; cbn [bumpd d_parent d_kind d_pay d_ver] in *.
+      + repeat split; try reflexivity; [now left|exact Hs].
+      + repeat split; try reflexivity; [|exact Hs]. right. split; [reflexivity|].
+        exists c, dc. split; [exact (proj2 (dx_items _ _ _ Hok c _ Hc1))|now split].
+  Qed.
+
+  (* if no removed descriptor names h as its parent, the added descriptor has exactly the continued version *)
+  Corollary descr_tx_created_exact : code = 0 -> forall h par k p sp, In (ADAdd h par k p sp) acts ->
+    (forall c dc, In (ADDel c) acts -> descrs m c = Some dc -> d_parent dc <> Some h) ->
+    descrs m' h = Some (mkDescr par k (set_version (sv_d m) h 0) p).
+  Proof.
+    intros Hc h par k p sp Ha No. destruct (descr_tx_created Hc h par k p sp Ha) as (_ & d' & Ed & P & K & Y & V & _).
+    rewrite Ed. destruct d' as [a b c v]. cbn in *. subst. destruct V as [->|[_ (c0 & dc & H1 & H2 & H3)]]; [reflexivity|].
+    exfalso. exact (No c0 dc H1 H2 H3).
   Qed.
 
   (* versions of descriptor handles never decrease, present or remembered *)
@@ -2136,7 +2288,6 @@ Section DescrTx.
     constructor; [exact (cf_dom _ _ _ _ _ F)|exact (cf_sd _ _ _ _ _ F)|exact (cf_ctx _ _ _ _ _ F)|exact (cf_cdom _ _ _ _ _ F)].
   Qed.
 End DescrTx.
-
 (* ---------------------------------------------------------------- 4. histories of transactions of all kinds *)
 Lemma hsu_frame m1 t1 :
   descrs (handle_state_updates m1 t1) = descrs m1 /\ sv_d (handle_state_updates m1 t1) = sv_d m1 /\
@@ -2215,14 +2366,14 @@ Proof.
     + now apply ev_d_same.
 Qed.
 
-(* one transaction of a history is well-formed for the MDIB it is applied to *)
+(* one transaction of a history: the calls fit the kind of transaction (context handles generated by uuid4 are fresh) *)
 Definition txn_ok (m : mdib) (x : txn) : Prop :=
   let '(k, ab, acts) := x in
   match ab with
   | Some _ => True                                                          (* aborted by the application: anything *)
   | None => (0 <= k < 5 /\ state_only acts) \/
             (k = 5 /\ ctx_only acts /\ fresh_ok m acts) \/
-            (k = 6 /\ descr_only acts /\ acts_sep m acts)
+            (k = 6 /\ descr_only acts)
   end.
 Fixpoint hist_ok (m : mdib) (hist : list txn) : Prop :=
   match hist with
@@ -2235,7 +2386,7 @@ Lemma exec1_ok m x : mdib_wf m -> txn_ok m x ->
 Proof.
   destruct x as [[k ab] acts]. intros Hwf Hx. unfold exec1. cbn [txn_ok] in Hx. destruct ab as [n|].
   - destruct (abort_never_commits k n acts m) as [_ ->]. split; [exact Hwf|]. split; [tauto|intros; lia].
-  - destruct Hx as [[Hk Ho]|[(-> & Ho & Hf)|(-> & Ho & Hs)]].
+  - destruct Hx as [[Hk Ho]|[(-> & Ho & Hf)|(-> & Ho)]].
     + destruct (state_tx_ok k m acts Hk Ho Hwf) as [W V]. split; [exact W|]. split; [|exact V].
       now apply state_tx_consistent.
     + exact (ctx_tx_ok m acts Ho Hf Hwf).
@@ -2260,31 +2411,6 @@ Proof.
   intros h d d' E E'. specialize (V h). unfold ev_d in V. now rewrite E, E' in V.
 Qed.
 
-(* ---------------------------------------------------------------- deciding [below] on a concrete MDIB *)
-Fixpoint anc (m : mdib) (fuel : nat) (x : H) : list H :=
-  x :: match fuel with
-       | O => []
-       | S f => match descrs m x with
-                | Some d => match d_parent d with Some p => anc m f p | None => [] end
-                | None => []
-                end
-       end.
-Fixpoint ends (m : mdib) (fuel : nat) (x : H) : bool :=
-  match descrs m x with
-  | None => true
-  | Some d => match d_parent d with
-              | None => true
-              | Some p => match fuel with O => false | S f => ends m f p end
-              end
-  end.
-Lemma below_anc m : forall f x r, ends m f x = true -> below m x r -> In r (anc m f x).
-Proof.
-  induction f as [|f IH]; intros x r He B.
-  - inversion B as [|? d p ? E P B']; subst; [now left|]. cbn [ends] in He. rewrite E, P in He. discriminate.
-  - inversion B as [|? d p ? E P B']; subst; [now left|]. cbn [ends anc] in *. rewrite E, P in *. right. now apply IH.
-Qed.
-Lemma not_below m f x r : ends m f x = true -> ~ In r (anc m f x) -> ~ below m x r.
-Proof. intros He Hn B. apply Hn. now apply below_anc. Qed.
 
 (* ---------------------------------------------------------------- a concrete transaction: non-vacuity *)
 (* 1 <- 2 <- {3, 4}; handle 5 existed before (saved versions 6 / 2).  One transaction adds 5 below 2, removes 3 and
@@ -2320,18 +2446,9 @@ Proof.
 Qed.
 Lemma ex_descr_only : descr_only ex_acts.
 Proof. intros a [<-|[<-|[<-|[]]]]; exact I. Qed.
-Lemma ex_sep : acts_sep ex_m ex_acts.
-Proof.
-  intros D [[=]|[[= <-]|[[=]|[]]]]. split; [|split; [|split]].
-  - intros x p [[=]|[[=]|[[= <- _]|[]]]]. apply (not_below ex_m 4); [reflexivity|]. cbn. intuition discriminate.
-  - intros x par k p sp [[= _ <- _ _ _]|[[=]|[[=]|[]]]]. apply (not_below ex_m 4); [reflexivity|]. cbn. intuition discriminate.
-  - intros x [[=]|[[= <-]|[[=]|[]]]]. congruence.
-  - intros dD par E P. cbn in E. injection E as <-. cbn in P. injection P as <-. split; [discriminate|].
-    apply (not_below ex_m 4); [reflexivity|]. cbn. intuition discriminate.
-Qed.
 
 Example descr_tx_nonvacuous :
-  mdib_wf ex_m /\ states_consistent ex_m /\ descr_only ex_acts /\ acts_sep ex_m ex_acts /\
+  mdib_wf ex_m /\ states_consistent ex_m /\ descr_only ex_acts /\
   let r := transaction 6 None ex_acts ex_m in
   snd r = 0 /\ ver (fst r) = 11 /\
   map (descrs (fst r)) [1; 2; 3; 4; 5] =
@@ -2341,13 +2458,12 @@ Example descr_tx_nonvacuous :
     [Some (mkState 0 2 11); Some (mkState 4 8 21); None; Some (mkState 6 1 41); Some (mkState 7 3 51)] /\
   sv_d (fst r) 3 = Some 1 /\ sv_s (fst r) 3 = Some 4.
 Proof.
-  split; [exact ex_wf|]. split; [exact ex_consistent|]. split; [exact ex_descr_only|]. split; [exact ex_sep|].
+  split; [exact ex_wf|]. split; [exact ex_consistent|]. split; [exact ex_descr_only|].
   cbv zeta. repeat split; vm_compute; reflexivity.
 Qed.
 
-(* ---------------------------------------------------------------- why the separation condition is needed *)
-(* 1 <- 2 <- 3, every descriptor with a state.  Without [acts_sep] a committed descriptor transaction leaves states
-   behind whose descriptor is gone (the model agrees with the implementation on these three; see the report). *)
+(* ---------------------------------------------------------------- conflicting and nested transactions *)
+(* 1 <- 2 <- 3, every descriptor with a state *)
 Definition w_m : mdib :=
   mkMdib (fun h => if h =? 1 then Some (mkDescr None K_COMP 0 10)
                    else if h =? 2 then Some (mkDescr (Some 1) K_COMP 0 20)
@@ -2369,50 +2485,33 @@ Proof.
   intros h s. cbn [descrs states w_m]. case_handles h; intros [= <-]; try (eexists; split; [reflexivity|reflexivity]).
 Qed.
 
-Definition dangling (m : mdib) (h : H) : Prop := states m h <> None /\ descrs m h = None.
-Lemma dangling_inconsistent m h : dangling m h -> ~ states_consistent m.
-Proof.
-  intros [Hs Hd] Hc. destruct (states m h) as [s|] eqn:E; [|contradiction].
-  destruct (Hc h s E) as (d & Ed & _). congruence.
-Qed.
+(* refused with ApiUsageError (code 3), the MDIB is what it was *)
+Definition rejected (acts : list action) : Prop :=
+  snd (transaction 6 None acts w_m) = 3 /\ fst (transaction 6 None acts w_m) = w_m.
+Lemma rejected_intro acts : snd (transaction 6 None acts w_m) = 3 -> rejected acts.
+Proof. intros E. split; [exact E|]. apply transaction_not_committed_noop. rewrite E. discriminate. Qed.
 
-Definition refutes (acts : list action) (h : H) : Prop :=
-  mdib_wf w_m /\ states_consistent w_m /\ descr_only acts /\
-  snd (transaction 6 None acts w_m) = 0 /\ dangling (fst (transaction 6 None acts w_m)) h /\
-  ~ states_consistent (fst (transaction 6 None acts w_m)).
+(* the transactions that used to leave states without descriptor (or raised in the middle of the commit) *)
+Example add_below_removed_rejected : rejected [ADAdd 4 (Some 2) K_METRIC 40 41; ADDel 2].
+Proof. apply rejected_intro. vm_compute. reflexivity. Qed.
+Example update_below_removed_rejected : rejected [ADUpd 3 33; ADDel 2].
+Proof. apply rejected_intro. vm_compute. reflexivity. Qed.
+Example update_after_remove_rejected : rejected [ADDel 2; ADUpd 3 33].
+Proof. apply rejected_intro. vm_compute. reflexivity. Qed.
 
-Lemma refutes_intro acts h : descr_only acts -> snd (transaction 6 None acts w_m) = 0 ->
-  dangling (fst (transaction 6 None acts w_m)) h -> refutes acts h.
+(* a removal nested in another removal is fine (either order): everything is gone, nothing is left behind *)
+Example nested_remove_commits :
+  let r := transaction 6 None [ADDel 3; ADDel 1] w_m in
+  snd r = 0 /\ ver (fst r) = 1 /\ states_consistent (fst r) /\ mdib_wf (fst r) /\
+  map (descrs (fst r)) [1; 2; 3] = [None; None; None] /\ map (states (fst r)) [1; 2; 3] = [None; None; None] /\
+  map (sv_d (fst r)) [1; 2; 3] = [Some 0; Some 0; Some 0] /\ map (sv_s (fst r)) [1; 2; 3] = [Some 0; Some 0; Some 0].
 Proof.
-  intros Ho Hc Hd. split; [exact w_wf|]. split; [exact w_consistent|]. split; [exact Ho|]. split; [exact Hc|].
-  split; [exact Hd|]. eapply dangling_inconsistent; exact Hd.
+  assert (Ho : descr_only [ADDel 3; ADDel 1]) by (intros a [<-|[<-|[]]]; exact I).
+  cbv zeta. split; [vm_compute; reflexivity|]. split; [vm_compute; reflexivity|].
+  split; [exact (descr_tx_consistent w_m _ w_wf Ho w_consistent)|]. split; [exact (descr_tx_wf w_m _ w_wf Ho)|].
+  repeat split; vm_compute; reflexivity.
 Qed.
-
-(* add a child below a descriptor that the same transaction removes afterwards *)
-Theorem consistent_refuted_add_below_removed : refutes [ADAdd 4 (Some 2) K_METRIC 40 41; ADDel 2] 4.
-Proof.
-  apply refutes_intro; [intros a [<-|[<-|[]]]; exact I|vm_compute; reflexivity|].
-  split; vm_compute; [discriminate|reflexivity].
-Qed.
-(* update a descriptor below one that the same transaction removes afterwards *)
-Theorem consistent_refuted_update_below_removed : refutes [ADUpd 3 33; ADDel 2] 3.
-Proof.
-  apply refutes_intro; [intros a [<-|[<-|[]]]; exact I|vm_compute; reflexivity|].
-  split; vm_compute; [discriminate|reflexivity].
-Qed.
-(* remove a descriptor and afterwards an ancestor of its parent *)
-Theorem consistent_refuted_nested_remove : refutes [ADDel 3; ADDel 1] 2.
-Proof.
-  apply refutes_intro; [intros a [<-|[<-|[]]]; exact I|vm_compute; reflexivity|].
-  split; vm_compute; [discriminate|reflexivity].
-Qed.
-
-(* in the model, "the removed subtree is gone" fails as well when a descendant is updated after the removal
-   (the implementation raises in the middle of the commit instead; see the report) *)
-Theorem deleted_refuted_update_after_remove :
-  mdib_wf w_m /\ descr_only [ADDel 2; ADUpd 3 33] /\ snd (transaction 6 None [ADDel 2; ADUpd 3 33] w_m) = 0 /\
-  In 3 (subtree w_m 2) /\ descrs (fst (transaction 6 None [ADDel 2; ADUpd 3 33] w_m)) 3 <> None.
-Proof.
-  split; [exact w_wf|]. split; [intros a [<-|[<-|[]]]; exact I|]. split; [vm_compute; reflexivity|].
-  split; [vm_compute; tauto|vm_compute; discriminate].
-Qed.
+Example nested_remove_commits_rev :
+  let r := transaction 6 None [ADDel 1; ADDel 3] w_m in
+  snd r = 0 /\ map (descrs (fst r)) [1; 2; 3] = [None; None; None] /\ map (states (fst r)) [1; 2; 3] = [None; None; None].
+Proof. cbv zeta. repeat split; vm_compute; reflexivity. Qed.
